@@ -6,16 +6,16 @@ Generic preservation: every function of the core model preserves any invariant `
 preserved by the named state writers and by a handful of composite operations.  Proved once here;
 each invariant then only supplies its structure.
 
-Two chains of obligations:
-* the weak one — `LeafR` (writers that are sound anywhere) ⊂ `SpecCoreR` (+ the exclusive slot,
-  top-level futures, and the three guarded places `spawnProcess`, `stopCore`, `guardedStop`) ⊂
-  `SpecMR` (+ replies) ⊂ `SpecR` (+ the event loop: `settleStep`, `stopController`).  All composition
-  theorems are proved over it: `exec_presR`, `validateExecute_presR`, `handleMessage_presR`,
-  `stepOp_presR` (no socket is closed up to here), `stepM_presR`, `run_presR`.
-* the full one — `Leaf` ⊂ `SpecCore` ⊂ `Spec`: every writer anywhere (`setStatus` with any status,
-  `spawnAdopt`, `setClosed`).  It converts to the weak one (`Leaf.toLeafR`, `SpecCore.toSpecCoreR`,
-  `Spec.toSpecMR`, `Spec.toSpecR`); the theorems with the old names (`exec_pres … run_pres`) are
-  the weak ones composed with the conversion.
+Three chains of obligations, each converting to the next weaker one:
+* the full one — `LeafK ⊂ LeafW ⊂ Leaf ⊂ SpecCore ⊂ Spec`: every writer anywhere (`setStatus` with any
+  status, `spawnAdopt`, `setClosed`, `emitEv` with any topic).  Theorems `exec_pres … run_pres`.
+* the `R` chain — `LeafW ⊂ LeafR ⊂ SpecCoreR ⊂ SpecMR ⊂ SpecR`: without `setStatus … .stopped`, `spawnAdopt`,
+  `setClosed`; the places that use them are obligations (`spawnProcess`, `stopCore`, `guardedStop`,
+  `stopController`).  Theorems `…_presR`.  (StoppedEmpty, WidInv, NoClose.)
+* the `E` chain — `LeafK ⊂ LeafWE0 ⊂ LeafWE ⊂ LeafRE ⊂ SpecCoreRE ⊂ SpecMRE ⊂ SpecRE`: in addition `emitEv` only for
+  topics other than `reap`/`spawn`; `reapProcess` is an obligation (`LeafWE`), the `spawn` event is
+  part of `spawnProcess`.  All composition proofs are done here (`…_presE`); the other two are
+  these composed with the conversions.  (EventInv.)
 -/
 namespace Circus.Core
 
@@ -125,6 +125,70 @@ structure SpecR (I : State → Prop) : Prop extends SpecMR I where
   settleStep : (∀ n t, Pres I (exec n t)) → Pres I sigQuit → Pres I settleStep
   stopController : Pres I stopController
 
+/-! ### the weakest chain: events
+
+`LeafWE0`/`LeafWE` are `LeafW` with `emitEv` only for topics other than `reap` and `spawn`: those
+two events are published in one place each (`reapTail`, after the pop in `reap_process`;
+`spawn_process`, right after the adoption), and an invariant about the published events (C09) is
+kept by these places as a whole, not by the bare writer.  `reapProcess` is the obligation for the
+first (`LeafWE`), the second is inside `spawnProcess` (`SpecCoreRE`).  `LeafRE ⊂ SpecCoreRE ⊂ SpecMRE ⊂
+SpecRE` are the weak chain above on top of `LeafWE`; all composition theorems are proved over this
+chain (`…_presE`), the `R` chain and the full one convert to it. -/
+
+/-- the writers of Watcher.lean, events other than `reap`/`spawn` -/
+structure LeafWE0 (I : State → Prop) : Prop extends LeafK I where
+  emitEv : ∀ w t p x, t ≠ "reap" → t ≠ "spawn" → Pres I (emitEv w t p x)
+  popPid : ∀ u p, Pres I (popPid u p)
+  bumpHook : ∀ u h i, Pres I (bumpHook u h i)
+  setObjStopping : ∀ p b, Pres I (setObjStopping p b)
+  setRc : ∀ p rc, Pres I (setRc p rc)
+  markBlocked : Pres I markBlocked
+
+/-- … plus `reap_process` as a whole (pop, wait, the `reap` event) -/
+structure LeafWE (I : State → Prop) : Prop extends LeafWE0 I where
+  reapProcess : ∀ u p st, Pres I (reapProcess u p st)
+
+structure LeafRE (I : State → Prop) : Prop extends LeafWE I where
+  setStatus : ∀ u st, st ≠ Status.stopped → Pres I (setStatus u st)    -- `.stopped` is written by `stopCore`/`guardedStop` only
+  trySetNp : ∀ u n, Pres I (trySetNp u n)
+  setWOpt : ∀ u c, Pres I (setWOpt u c)
+  freshId : Pres I freshId
+  pushFrame : ∀ f, Pres I (pushFrame f)
+  removeFrame : ∀ f, Pres I (removeFrame f)
+  setFrameK : ∀ f k, Pres I (setFrameK f k)
+  armFrame : ∀ f, Pres I (armFrame f)
+  pushSleeper : ∀ sl, Pres I (pushSleeper sl)
+  armTop : ∀ t, Pres I (armTop t)
+  setStopping : Pres I setStopping
+  setRestarting : Pres I setRestarting
+  setLoopStop : ∀ b, Pres I (setLoopStop b)
+  setSocketEvent : ∀ b, Pres I (setSocketEvent b)
+  setSockReady : ∀ b, Pres I (setSockReady b)
+  clearDone : Pres I clearDone
+  unregister : ∀ u, Pres I (unregisterWatcher u)
+  registerNew : ∀ w, w.pids = [] → Pres I (registerNew w)    -- a new watcher object lists no process
+  fireSleeper : ∀ sl, Pres I (fireSleeper sl)
+  enqueueResume : ∀ k v w, Pres I (enqueue (.resume k v w))
+  enqueueCallback : ∀ n, Pres I (enqueue (.callback n))
+
+structure SpecCoreRE (I : State → Prop) : Prop extends LeafRE I where
+  deliverTop : ∀ tid v, Pres I (deliverTop tid v)
+  newTopNR : ∀ cbs, TopCb.release ∉ cbs → Pres I (newTop cbs)
+  addDone : ∀ tid cb, cb ≠ TopCb.release → Pres I (addDoneCallback tid cb)
+  syncCo : (∀ n t, Pres I (exec n t)) → ∀ name c, Pres I (syncCoroutine name c [])
+  syncSetOpt : ∀ u key val len, Pres I (syncPlain "watcher_set_opt" (setOptBody u key val len))
+  syncAdd : ∀ props, Pres I (syncPlain "arbiter_add_watcher" (addCore props))
+  spawnProcess : ∀ rec, (∀ t, Pres I (rec t)) → ∀ u, Pres I (spawnProcess rec u)
+  stopCore : ∀ u, Pres I (stopCore u)
+  guardedStop : ∀ u, Pres I (guardedStop u)
+
+structure SpecMRE (I : State → Prop) : Prop extends SpecCoreRE I where
+  emitRep : ∀ c i a b d, Pres I (emitRep c i a b d)
+
+structure SpecRE (I : State → Prop) : Prop extends SpecMRE I where
+  settleStep : (∀ n t, Pres I (exec n t)) → Pres I sigQuit → Pres I settleStep
+  stopController : Pres I stopController
+
 /-! ### the full structures (every writer, anywhere) -/
 
 /-- writers that touch neither the exclusive slot, nor top-level futures, nor the directory -/
@@ -169,13 +233,16 @@ structure Spec (I : State → Prop) : Prop extends SpecCore I where
 
 attribute [aesop safe apply (rule_sets := [Pres])] Pres.pure Pres.getS Pres.getK Pres.getA Pres.getW Pres.getO Pres.nowMs
 attribute [aesop safe apply (rule_sets := [Pres])] Pres.bind Pres.ite Pres.for_in
-attribute [aesop safe apply (rule_sets := [Pres])] LeafK.emit LeafW.popPid LeafW.bumpHook LeafW.setObjStopping LeafW.setRc
-  LeafW.markBlocked LeafW.emitEv
-attribute [aesop safe apply (rule_sets := [Pres])] LeafR.trySetNp LeafR.setWOpt LeafR.freshId LeafR.pushFrame LeafR.removeFrame LeafR.setFrameK LeafR.armFrame LeafR.pushSleeper LeafR.armTop LeafR.setStopping LeafR.setRestarting LeafR.setLoopStop LeafR.setSocketEvent LeafR.setSockReady LeafR.clearDone LeafR.unregister LeafR.fireSleeper LeafR.enqueueResume LeafR.enqueueCallback
-attribute [aesop safe apply (rule_sets := [Pres])] SpecCoreR.deliverTop SpecCoreR.syncSetOpt SpecCoreR.syncAdd SpecCoreR.stopCore
-  SpecCoreR.guardedStop
+attribute [aesop safe apply (rule_sets := [Pres])] LeafK.emit LeafWE0.popPid LeafWE0.bumpHook LeafWE0.setObjStopping LeafWE0.setRc
+  LeafWE0.markBlocked LeafWE.reapProcess
+attribute [aesop safe apply (rule_sets := [Pres])] LeafRE.trySetNp LeafRE.setWOpt LeafRE.freshId LeafRE.pushFrame LeafRE.removeFrame LeafRE.setFrameK LeafRE.armFrame LeafRE.pushSleeper LeafRE.armTop LeafRE.setStopping LeafRE.setRestarting LeafRE.setLoopStop LeafRE.setSocketEvent LeafRE.setSockReady LeafRE.clearDone LeafRE.unregister LeafRE.fireSleeper LeafRE.enqueueResume LeafRE.enqueueCallback
+attribute [aesop safe apply (rule_sets := [Pres])] SpecCoreRE.deliverTop SpecCoreRE.syncSetOpt SpecCoreRE.syncAdd SpecCoreRE.stopCore
+  SpecCoreRE.guardedStop
 
-attribute [aesop safe apply (rule_sets := [Pres])] LeafW.toLeafK LeafR.toLeafW SpecCoreR.toLeafR SpecMR.toSpecCoreR SpecR.toSpecMR
+-- structure goals: one rule each.  Proofs over the E chain keep `LeafRE I` and `LeafWE I` in the context
+-- (`have`); contexts that only have a stronger structure get there through the conversions.
+attribute [aesop safe apply (rule_sets := [Pres])] LeafWE0.toLeafK LeafWE.toLeafWE0 LeafR.toLeafW SpecCoreR.toLeafR
+  SpecMR.toSpecCoreR SpecR.toSpecMR SpecMRE.toSpecCoreRE SpecRE.toSpecMRE
 
 macro "pres" : tactic => `(tactic| aesop (rule_sets := [Pres]) (config := { terminal := true, useDefaultSimpSet := false, useSimpAll := false, maxRuleApplications := 3000 }))
 
@@ -203,264 +270,411 @@ theorem kChildren_pres (L : LeafK I) (pid : Nat) (r : Bool) : Pres I (kChildren 
 theorem kSleep_pres (L : LeafK I) (ms : Nat) : Pres I (kSleep ms) := updK_pres L _ (fun k => KStep.sleep k ms)
 
 /-! ### watcher.py, synchronous part -/
+theorem emitEv_other (L : LeafWE0 I) (w t : String) (p : Option Nat) (x : String) (h1 : t ≠ "reap") (h2 : t ≠ "spawn") :
+    Pres I (emitEv w t p x) := L.emitEv w t p x h1 h2
+/-- `notify_event` with a topic other than `reap`/`spawn` -/
+theorem notify_presE (L : LeafWE0 I) (u : Nat) (t : String) (p : Option Nat) (x : String)
+    (h1 : t ≠ "reap") (h2 : t ≠ "spawn") : Pres I (notify u t p x) := by
+  have h := L.emitEv
+  unfold notify
+  aesop (add safe apply h) (rule_sets := [Pres]) (config := { terminal := true, useDefaultSimpSet := false, useSimpAll := false, maxRuleApplications := 3000 })
 @[aesop safe apply (rule_sets := [Pres])]
-theorem notify_pres (L : LeafW I) (u : Nat) (t : String) (p : Option Nat) (x : String) : Pres I (notify u t p x) := by
-  unfold notify; pres
+theorem notify_kill (L : LeafWE0 I) (u : Nat) (p : Option Nat) (x : String) : Pres I (notify u "kill" p x) :=
+  notify_presE L u _ p x (by decide) (by decide)
 @[aesop safe apply (rule_sets := [Pres])]
-theorem callHook_pres (L : LeafW I) (u : Nat) (h : String) : Pres I (callHook u h) := by
+theorem notify_stop (L : LeafWE0 I) (u : Nat) (p : Option Nat) (x : String) : Pres I (notify u "stop" p x) :=
+  notify_presE L u _ p x (by decide) (by decide)
+@[aesop safe apply (rule_sets := [Pres])]
+theorem notify_start (L : LeafWE0 I) (u : Nat) (p : Option Nat) (x : String) : Pres I (notify u "start" p x) :=
+  notify_presE L u _ p x (by decide) (by decide)
+@[aesop safe apply (rule_sets := [Pres])]
+theorem notify_remove (L : LeafWE0 I) (u : Nat) (p : Option Nat) (x : String) : Pres I (notify u "remove" p x) :=
+  notify_presE L u _ p x (by decide) (by decide)
+@[aesop safe apply (rule_sets := [Pres])]
+theorem notify_reload (L : LeafWE0 I) (u : Nat) (p : Option Nat) (x : String) : Pres I (notify u "reload" p x) :=
+  notify_presE L u _ p x (by decide) (by decide)
+@[aesop safe apply (rule_sets := [Pres])]
+theorem notify_add (L : LeafWE0 I) (u : Nat) (p : Option Nat) (x : String) : Pres I (notify u "add" p x) :=
+  notify_presE L u _ p x (by decide) (by decide)
+@[aesop safe apply (rule_sets := [Pres])]
+theorem notify_updated (L : LeafWE0 I) (u : Nat) (p : Option Nat) (x : String) : Pres I (notify u "updated" p x) :=
+  notify_presE L u _ p x (by decide) (by decide)
+@[aesop safe apply (rule_sets := [Pres])]
+theorem notify_hook_failure (L : LeafWE0 I) (u : Nat) (p : Option Nat) (x : String) : Pres I (notify u "hook_failure" p x) :=
+  notify_presE L u _ p x (by decide) (by decide)
+@[aesop safe apply (rule_sets := [Pres])]
+theorem notify_hook_success (L : LeafWE0 I) (u : Nat) (p : Option Nat) (x : String) : Pres I (notify u "hook_success" p x) :=
+  notify_presE L u _ p x (by decide) (by decide)
+@[aesop safe apply (rule_sets := [Pres])]
+theorem callHook_presE (L : LeafWE0 I) (u : Nat) (h : String) : Pres I (callHook u h) := by
   unfold callHook; pres
 @[aesop safe apply (rule_sets := [Pres])]
-theorem procStatus_pres (L : LeafW I) (pid : Nat) : Pres I (procStatus pid) := by
+theorem procStatus_presE (L : LeafWE0 I) (pid : Nat) : Pres I (procStatus pid) := by
   unfold procStatus; pres
 @[aesop safe apply (rule_sets := [Pres])]
-theorem isAlive_pres (L : LeafW I) (pid : Nat) : Pres I (isAlive pid) := by
+theorem isAlive_presE (L : LeafWE0 I) (pid : Nat) : Pres I (isAlive pid) := by
   unfold isAlive; pres
 @[aesop safe apply (rule_sets := [Pres])]
-theorem objStop_pres (L : LeafW I) (pid : Nat) : Pres I (objStop pid) := by
+theorem objStop_presE (L : LeafWE0 I) (pid : Nat) : Pres I (objStop pid) := by
   unfold objStop; pres
 @[aesop safe apply (rule_sets := [Pres])]
-theorem sendSignal_pres (L : LeafW I) (u p sg : Nat) : Pres I (sendSignal u p sg) := by
+theorem sendSignal_presE (L : LeafWE0 I) (u p sg : Nat) : Pres I (sendSignal u p sg) := by
   unfold sendSignal; pres
 @[aesop safe apply (rule_sets := [Pres])]
-theorem sendSignalChild_pres (L : LeafW I) (p c sg : Nat) : Pres I (sendSignalChild p c sg) := by
+theorem sendSignalChild_presE (L : LeafWE0 I) (p c sg : Nat) : Pres I (sendSignalChild p c sg) := by
   unfold sendSignalChild; pres
 @[aesop safe apply (rule_sets := [Pres])]
-theorem sendSignalProcess_pres (L : LeafW I) (u p sg : Nat) (r : Bool) : Pres I (sendSignalProcess u p sg r) := by
+theorem sendSignalProcess_presE (L : LeafWE0 I) (u p sg : Nat) (r : Bool) : Pres I (sendSignalProcess u p sg r) := by
   unfold sendSignalProcess; pres
 @[aesop safe apply (rule_sets := [Pres])]
-theorem activeProcs_pres (L : LeafW I) (u : Nat) : Pres I (activeProcs u) := by
+theorem activeProcs_presE (L : LeafWE0 I) (u : Nat) : Pres I (activeProcs u) := by
   unfold activeProcs; pres
 @[aesop safe apply (rule_sets := [Pres])]
-theorem setBlocked_pres (L : LeafW I) : Pres I setBlocked := by
+theorem setBlocked_presE (L : LeafWE0 I) : Pres I setBlocked := by
   unfold setBlocked; pres
 
 @[aesop safe apply (rule_sets := [Pres])]
-theorem reapWait_pres (L : LeafW I) (pid fuel : Nat) : Pres I (reapWait pid fuel) := by
+theorem reapWait_presE (L : LeafWE0 I) (pid fuel : Nat) : Pres I (reapWait pid fuel) := by
   induction fuel with
   | zero => unfold reapWait; pres
   | succ n ih => unfold reapWait; aesop (add safe apply ih) (rule_sets := [Pres]) (config := { terminal := true, useDefaultSimpSet := false, useSimpAll := false, maxRuleApplications := 3000 })
+/-- `reap_process` after the pop, for an invariant that survives a `reap` event for any pid -/
+theorem reapTail_ofE (L : LeafWE0 I) (hreap : ∀ w p x, Pres I (emitEv w "reap" p x)) (u p : Nat) (st : Option Nat) :
+    Pres I (reapTail u p st) := by
+  have hn : ∀ q x, Pres I (notify u "reap" q x) := by
+    intro q x; unfold notify; aesop (add safe apply hreap) (rule_sets := [Pres]) (config := { terminal := true, useDefaultSimpSet := false, useSimpAll := false, maxRuleApplications := 3000 })
+  unfold reapTail; aesop (add safe apply hn) (rule_sets := [Pres]) (config := { terminal := true, useDefaultSimpSet := false, useSimpAll := false, maxRuleApplications := 3000 })
+theorem reapProcess_ofE (L : LeafWE0 I) (hreap : ∀ w p x, Pres I (emitEv w "reap" p x)) (u p : Nat) (st : Option Nat) :
+    Pres I (reapProcess u p st) := by
+  have h := reapTail_ofE L hreap
+  unfold reapProcess; aesop (add safe apply h) (rule_sets := [Pres]) (config := { terminal := true, useDefaultSimpSet := false, useSimpAll := false, maxRuleApplications := 3000 })
+theorem reapProcess_presE (L : LeafWE I) (u p : Nat) (st : Option Nat) : Pres I (reapProcess u p st) := L.reapProcess u p st
 @[aesop safe apply (rule_sets := [Pres])]
-theorem reapTail_pres (L : LeafW I) (u p : Nat) (st : Option Nat) : Pres I (reapTail u p st) := by
-  unfold reapTail; pres
-@[aesop safe apply (rule_sets := [Pres])]
-theorem reapProcess_pres (L : LeafW I) (u p : Nat) (st : Option Nat) : Pres I (reapProcess u p st) := by
-  unfold reapProcess; pres
-@[aesop safe apply (rule_sets := [Pres])]
-theorem reapProcesses_pres (L : LeafW I) (u : Nat) : Pres I (reapProcesses u) := by
+theorem reapProcesses_presE (L : LeafWE I) (u : Nat) : Pres I (reapProcesses u) := by
   unfold reapProcesses; pres
 @[aesop safe apply (rule_sets := [Pres])]
-theorem usedWids_pres (L : LeafW I) (u : Nat) : Pres I (usedWids u) := by
+theorem usedWids_presE (L : LeafWE0 I) (u : Nat) : Pres I (usedWids u) := by
   unfold usedWids; pres
 @[aesop safe apply (rule_sets := [Pres])]
-theorem arbReapLoop_pres (L : LeafW I) (pm : List (Nat × Nat)) (fuel : Nat) : Pres I (arbReapLoop pm fuel) := by
+theorem arbReapLoop_presE (L : LeafWE I) (pm : List (Nat × Nat)) (fuel : Nat) : Pres I (arbReapLoop pm fuel) := by
   induction fuel with
   | zero => unfold arbReapLoop; pres
   | succ n ih => unfold arbReapLoop; aesop (add safe apply ih) (rule_sets := [Pres]) (config := { terminal := true, useDefaultSimpSet := false, useSimpAll := false, maxRuleApplications := 3000 })
 @[aesop safe apply (rule_sets := [Pres])]
-theorem registered_pres (L : LeafW I) : Pres I registered := by
+theorem registered_presE (L : LeafWE0 I) : Pres I registered := by
   unfold registered; pres
 @[aesop safe apply (rule_sets := [Pres])]
-theorem iterWatchers_pres (L : LeafW I) (r : Bool) : Pres I (iterWatchers r) := by
+theorem iterWatchers_presE (L : LeafWE0 I) (r : Bool) : Pres I (iterWatchers r) := by
   unfold iterWatchers; pres
 @[aesop safe apply (rule_sets := [Pres])]
-theorem arbReapProcesses_pres (L : LeafW I) : Pres I arbReapProcesses := by
+theorem arbReapProcesses_presE (L : LeafWE I) : Pres I arbReapProcesses := by
   unfold arbReapProcesses; pres
+
+
+/-! ### the full `LeafW` -/
+theorem LeafW.toLeafWE0 (L : LeafW I) : LeafWE0 I where
+  toLeafK := L.toLeafK
+  emitEv := fun w t p x _ _ => L.emitEv w t p x
+  popPid := L.popPid
+  bumpHook := L.bumpHook
+  setObjStopping := L.setObjStopping
+  setRc := L.setRc
+  markBlocked := L.markBlocked
+
+theorem LeafW.toLeafWE (L : LeafW I) : LeafWE I where
+  toLeafWE0 := L.toLeafWE0
+  reapProcess := reapProcess_ofE L.toLeafWE0 (fun w p x => L.emitEv w "reap" p x)
+
+attribute [aesop safe apply (rule_sets := [Pres])] LeafW.toLeafWE
+
+theorem notify_pres (L : LeafW I) (u : Nat) (t : String) (p : Option Nat) (x : String) : Pres I (notify u t p x) := by
+  have h := L.emitEv
+  unfold notify
+  aesop (add safe apply h) (rule_sets := [Pres]) (config := { terminal := true, useDefaultSimpSet := false, useSimpAll := false, maxRuleApplications := 3000 })
+/-- with a full `LeafW` at hand the two special topics are ordinary (tried after any local rule) -/
+@[aesop safe 100 apply (rule_sets := [Pres])]
+theorem notify_spawn_full (L : LeafW I) (u : Nat) (p : Option Nat) (x : String) : Pres I (notify u "spawn" p x) :=
+  notify_pres L u _ p x
+@[aesop safe 100 apply (rule_sets := [Pres])]
+theorem notify_reap_full (L : LeafW I) (u : Nat) (p : Option Nat) (x : String) : Pres I (notify u "reap" p x) :=
+  notify_pres L u _ p x
+theorem reapTail_pres (L : LeafW I) (u p : Nat) (st : Option Nat) : Pres I (reapTail u p st) :=
+  reapTail_ofE L.toLeafWE0 (fun w p x => L.emitEv w "reap" p x) u p st
+theorem reapProcess_pres (L : LeafW I) (u p : Nat) (st : Option Nat) : Pres I (reapProcess u p st) :=
+  reapProcess_ofE L.toLeafWE0 (fun w p x => L.emitEv w "reap" p x) u p st
+theorem callHook_pres (L : LeafW I) (u : Nat) (h : String) : Pres I (callHook u h) :=
+  callHook_presE L.toLeafWE0 u h
+theorem procStatus_pres (L : LeafW I) (pid : Nat) : Pres I (procStatus pid) :=
+  procStatus_presE L.toLeafWE0 pid
+theorem isAlive_pres (L : LeafW I) (pid : Nat) : Pres I (isAlive pid) :=
+  isAlive_presE L.toLeafWE0 pid
+theorem objStop_pres (L : LeafW I) (pid : Nat) : Pres I (objStop pid) :=
+  objStop_presE L.toLeafWE0 pid
+theorem sendSignal_pres (L : LeafW I) (u p sg : Nat) : Pres I (sendSignal u p sg) :=
+  sendSignal_presE L.toLeafWE0 u p sg
+theorem sendSignalChild_pres (L : LeafW I) (p c sg : Nat) : Pres I (sendSignalChild p c sg) :=
+  sendSignalChild_presE L.toLeafWE0 p c sg
+theorem sendSignalProcess_pres (L : LeafW I) (u p sg : Nat) (r : Bool) : Pres I (sendSignalProcess u p sg r) :=
+  sendSignalProcess_presE L.toLeafWE0 u p sg r
+theorem activeProcs_pres (L : LeafW I) (u : Nat) : Pres I (activeProcs u) :=
+  activeProcs_presE L.toLeafWE0 u
+theorem setBlocked_pres (L : LeafW I) : Pres I setBlocked :=
+  setBlocked_presE L.toLeafWE0 
+theorem reapWait_pres (L : LeafW I) (pid fuel : Nat) : Pres I (reapWait pid fuel) :=
+  reapWait_presE L.toLeafWE0 pid fuel
+theorem reapProcesses_pres (L : LeafW I) (u : Nat) : Pres I (reapProcesses u) :=
+  reapProcesses_presE L.toLeafWE u
+theorem usedWids_pres (L : LeafW I) (u : Nat) : Pres I (usedWids u) :=
+  usedWids_presE L.toLeafWE0 u
+theorem arbReapLoop_pres (L : LeafW I) (pm : List (Nat × Nat)) (fuel : Nat) : Pres I (arbReapLoop pm fuel) :=
+  arbReapLoop_presE L.toLeafWE pm fuel
+theorem registered_pres (L : LeafW I) : Pres I registered :=
+  registered_presE L.toLeafWE0 
+theorem iterWatchers_pres (L : LeafW I) (r : Bool) : Pres I (iterWatchers r) :=
+  iterWatchers_presE L.toLeafWE0 r
+theorem arbReapProcesses_pres (L : LeafW I) : Pres I arbReapProcesses :=
+  arbReapProcesses_presE L.toLeafWE 
 
 /-! ### Interp -/
 /-- the three status writes a coroutine makes in the open -/
 @[aesop safe apply (rule_sets := [Pres])]
-theorem setStatus_stopping (L : LeafR I) (u : Nat) : Pres I (setStatus u .stopping) := L.setStatus u _ (by decide)
+theorem setStatus_stopping (L : LeafRE I) (u : Nat) : Pres I (setStatus u .stopping) := L.setStatus u _ (by decide)
 @[aesop safe apply (rule_sets := [Pres])]
-theorem setStatus_starting (L : LeafR I) (u : Nat) : Pres I (setStatus u .starting) := L.setStatus u _ (by decide)
+theorem setStatus_starting (L : LeafRE I) (u : Nat) : Pres I (setStatus u .starting) := L.setStatus u _ (by decide)
 @[aesop safe apply (rule_sets := [Pres])]
-theorem setStatus_active (L : LeafR I) (u : Nat) : Pres I (setStatus u .active) := L.setStatus u _ (by decide)
+theorem setStatus_active (L : LeafRE I) (u : Nat) : Pres I (setStatus u .active) := L.setStatus u _ (by decide)
 
 @[aesop safe apply (rule_sets := [Pres])]
-theorem newFrame_presR (L : LeafR I) (k : Kont) (p : Waiter) : Pres I (newFrame k p) := by
+theorem newFrame_presE (L : LeafRE I) (k : Kont) (p : Waiter) : Pres I (newFrame k p) := by
+  have LW := L.toLeafWE
   unfold newFrame; pres
 @[aesop safe apply (rule_sets := [Pres])]
-theorem addSleeper_presR (L : LeafR I) (ms : Nat) (w : Waiter) : Pres I (addSleeper ms w) := by
+theorem addSleeper_presE (L : LeafRE I) (ms : Nat) (w : Waiter) : Pres I (addSleeper ms w) := by
+  have LW := L.toLeafWE
   unfold addSleeper; pres
 @[aesop safe apply (rule_sets := [Pres])]
-theorem sendReply_presR (L : LeafR I) (hrep : ∀ c i a b d, Pres I (emitRep c i a b d))
+theorem sendReply_presE (L : LeafRE I) (hrep : ∀ c i a b d, Pres I (emitRep c i a b d))
     (cid : Option String) (id : JVal) (c : Bool) (a b d : String) :
     Pres I (sendReply cid id c a b d) := by
+  have LW := L.toLeafWE
   unfold sendReply
   aesop (add safe apply hrep) (rule_sets := [Pres])
     (config := { terminal := true, useDefaultSimpSet := false, useSimpAll := false, maxRuleApplications := 3000 })
 @[aesop safe apply (rule_sets := [Pres])]
-theorem multiCollect_presR (L : LeafR I) (rec : Rec) (hrec : ∀ t, Pres I (rec t)) (f sl : Nat) (v : Val) :
+theorem multiCollect_presE (L : LeafRE I) (rec : Rec) (hrec : ∀ t, Pres I (rec t)) (f sl : Nat) (v : Val) :
     Pres I (multiCollect rec f sl v) := by
+  have LW := L.toLeafWE
   unfold multiCollect; aesop (add safe apply hrec) (rule_sets := [Pres]) (config := { terminal := true, useDefaultSimpSet := false, useSimpAll := false, maxRuleApplications := 3000 })
 
 @[aesop safe apply (rule_sets := [Pres])]
-theorem deliver_presR (S : SpecCoreR I) (rec : Rec) (hrec : ∀ t, Pres I (rec t)) (w : Waiter) (v : Val) :
+theorem deliver_presE (S : SpecCoreRE I) (rec : Rec) (hrec : ∀ t, Pres I (rec t)) (w : Waiter) (v : Val) :
     Pres I (deliver rec w v) := by
-  have L := S.toLeafR
+  have L := S.toLeafRE
+  have LW := L.toLeafWE
   unfold deliver; aesop (add safe apply hrec) (rule_sets := [Pres]) (config := { terminal := true, useDefaultSimpSet := false, useSimpAll := false, maxRuleApplications := 3000 })
 
 @[aesop safe apply (rule_sets := [Pres])]
-theorem await_presR (S : SpecCoreR I) (rec : Rec) (hrec : ∀ t, Pres I (rec t)) (c : Call) (k : Kont) (p : Waiter) :
+theorem await_presE (S : SpecCoreRE I) (rec : Rec) (hrec : ∀ t, Pres I (rec t)) (c : Call) (k : Kont) (p : Waiter) :
     Pres I (await rec c k p) := by
-  have L := S.toLeafR
+  have L := S.toLeafRE
+  have LW := L.toLeafWE
   unfold await; aesop (add safe apply hrec) (rule_sets := [Pres]) (config := { terminal := true, useDefaultSimpSet := false, useSimpAll := false, maxRuleApplications := 3000 })
 @[aesop safe apply (rule_sets := [Pres])]
-theorem awaitSleep_presR (L : LeafR I) (ms : Nat) (k : Kont) (p : Waiter) : Pres I (awaitSleep ms k p) := by
+theorem awaitSleep_presE (L : LeafRE I) (ms : Nat) (k : Kont) (p : Waiter) : Pres I (awaitSleep ms k p) := by
+  have LW := L.toLeafWE
   unfold awaitSleep; pres
 @[aesop safe apply (rule_sets := [Pres])]
-theorem awaitMulti_presR (S : SpecCoreR I) (rec : Rec) (hrec : ∀ t, Pres I (rec t)) (cs : List Call) (k : Kont) (p : Waiter) :
+theorem awaitMulti_presE (S : SpecCoreRE I) (rec : Rec) (hrec : ∀ t, Pres I (rec t)) (cs : List Call) (k : Kont) (p : Waiter) :
     Pres I (awaitMulti rec cs k p) := by
-  have L := S.toLeafR
+  have L := S.toLeafRE
+  have LW := L.toLeafWE
   unfold awaitMulti; aesop (add safe apply hrec) (rule_sets := [Pres]) (config := { terminal := true, useDefaultSimpSet := false, useSimpAll := false, maxRuleApplications := 3000 })
 
 /-! ### coroutine bodies (open recursion through `rec`) -/
 @[aesop safe apply (rule_sets := [Pres])]
-theorem popStrict_presR (L : LeafR I) (u p : Nat) : Pres I (popStrict u p) := by
+theorem popStrict_presE (L : LeafRE I) (u p : Nat) : Pres I (popStrict u p) := by
+  have LW := L.toLeafWE
   unfold popStrict; pres
 @[aesop safe apply (rule_sets := [Pres])]
-theorem pubBefore_presR (L : LeafR I) (u : Nat) : Pres I (pubBefore u) := by
+theorem pubBefore_presE (L : LeafRE I) (u : Nat) : Pres I (pubBefore u) := by
+  have LW := L.toLeafWE
   unfold pubBefore; pres
 @[aesop safe apply (rule_sets := [Pres])]
-theorem killFinish_presR (S : SpecCoreR I) (rec : Rec) (hrec : ∀ t, Pres I (rec t)) (wuid pid : Nat) (esc : Bool) (wt : Waiter) : Pres I (killFinish rec wuid pid esc wt) := by
-  have L := S.toLeafR
+theorem killFinish_presE (S : SpecCoreRE I) (rec : Rec) (hrec : ∀ t, Pres I (rec t)) (wuid pid : Nat) (esc : Bool) (wt : Waiter) : Pres I (killFinish rec wuid pid esc wt) := by
+  have L := S.toLeafRE
+  have LW := L.toLeafWE
   unfold killFinish; aesop (add safe apply hrec) (rule_sets := [Pres]) (config := { terminal := true, useDefaultSimpSet := false, useSimpAll := false, maxRuleApplications := 3000 })
 @[aesop safe apply (rule_sets := [Pres])]
-theorem killLoop_presR (S : SpecCoreR I) (rec : Rec) (hrec : ∀ t, Pres I (rec t)) (wuid pid sig i polls : Nat) (wt : Waiter) : Pres I (killLoop rec wuid pid sig i polls wt) := by
-  have L := S.toLeafR
+theorem killLoop_presE (S : SpecCoreRE I) (rec : Rec) (hrec : ∀ t, Pres I (rec t)) (wuid pid sig i polls : Nat) (wt : Waiter) : Pres I (killLoop rec wuid pid sig i polls wt) := by
+  have L := S.toLeafRE
+  have LW := L.toLeafWE
   unfold killLoop; aesop (add safe apply hrec) (rule_sets := [Pres]) (config := { terminal := true, useDefaultSimpSet := false, useSimpAll := false, maxRuleApplications := 3000 })
 @[aesop safe apply (rule_sets := [Pres])]
-theorem killProcess_presR (S : SpecCoreR I) (rec : Rec) (hrec : ∀ t, Pres I (rec t)) (wuid pid : Nat) (sig gt : Option Nat) (wt : Waiter) : Pres I (killProcess rec wuid pid sig gt wt) := by
-  have L := S.toLeafR
+theorem killProcess_presE (S : SpecCoreRE I) (rec : Rec) (hrec : ∀ t, Pres I (rec t)) (wuid pid : Nat) (sig gt : Option Nat) (wt : Waiter) : Pres I (killProcess rec wuid pid sig gt wt) := by
+  have L := S.toLeafRE
+  have LW := L.toLeafWE
   unfold killProcess; aesop (add safe apply hrec) (rule_sets := [Pres]) (config := { terminal := true, useDefaultSimpSet := false, useSimpAll := false, maxRuleApplications := 3000 })
 @[aesop safe apply (rule_sets := [Pres])]
-theorem killProcesses_presR (S : SpecCoreR I) (rec : Rec) (hrec : ∀ t, Pres I (rec t)) (wuid : Nat) (sig gt : Option Nat) (wt : Waiter) : Pres I (killProcesses rec wuid sig gt wt) := by
-  have L := S.toLeafR
+theorem killProcesses_presE (S : SpecCoreRE I) (rec : Rec) (hrec : ∀ t, Pres I (rec t)) (wuid : Nat) (sig gt : Option Nat) (wt : Waiter) : Pres I (killProcesses rec wuid sig gt wt) := by
+  have L := S.toLeafRE
+  have LW := L.toLeafWE
   unfold killProcesses; aesop (add safe apply hrec) (rule_sets := [Pres]) (config := { terminal := true, useDefaultSimpSet := false, useSimpAll := false, maxRuleApplications := 3000 })
 @[aesop safe apply (rule_sets := [Pres])]
-theorem stopW_presR (S : SpecCoreR I) (rec : Rec) (hrec : ∀ t, Pres I (rec t)) (wuid : Nat) (close : Bool) (wt : Waiter) : Pres I (stopW rec wuid close wt) := by
-  have L := S.toLeafR
+theorem stopW_presE (S : SpecCoreRE I) (rec : Rec) (hrec : ∀ t, Pres I (rec t)) (wuid : Nat) (close : Bool) (wt : Waiter) : Pres I (stopW rec wuid close wt) := by
+  have L := S.toLeafRE
+  have LW := L.toLeafWE
   unfold stopW; aesop (add safe apply hrec) (rule_sets := [Pres]) (config := { terminal := true, useDefaultSimpSet := false, useSimpAll := false, maxRuleApplications := 3000 })
 @[aesop safe apply (rule_sets := [Pres])]
-theorem stopAfterKill_presR (S : SpecCoreR I) (rec : Rec) (hrec : ∀ t, Pres I (rec t)) (wuid : Nat) (close : Bool) (wt : Waiter) : Pres I (stopAfterKill rec wuid close wt) := by
-  have L := S.toLeafR
+theorem stopAfterKill_presE (S : SpecCoreRE I) (rec : Rec) (hrec : ∀ t, Pres I (rec t)) (wuid : Nat) (close : Bool) (wt : Waiter) : Pres I (stopAfterKill rec wuid close wt) := by
+  have L := S.toLeafRE
+  have LW := L.toLeafWE
   rw [stopAfterKill_eq]; aesop (add safe apply hrec) (rule_sets := [Pres]) (config := { terminal := true, useDefaultSimpSet := false, useSimpAll := false, maxRuleApplications := 3000 })
 @[aesop safe apply (rule_sets := [Pres])]
-theorem spawnProcess_presR (S : SpecCoreR I) (rec : Rec) (hrec : ∀ t, Pres I (rec t)) (wuid : Nat) : Pres I (spawnProcess rec wuid) :=
+theorem spawnProcess_presE (S : SpecCoreRE I) (rec : Rec) (hrec : ∀ t, Pres I (rec t)) (wuid : Nat) : Pres I (spawnProcess rec wuid) :=
   S.spawnProcess rec hrec wuid
 @[aesop safe apply (rule_sets := [Pres])]
-theorem pendingSocketEvent_presR (L : LeafR I) (u : Nat) : Pres I (pendingSocketEvent u) := by
+theorem pendingSocketEvent_presE (L : LeafRE I) (u : Nat) : Pres I (pendingSocketEvent u) := by
+  have LW := L.toLeafWE
   unfold pendingSocketEvent; pres
 @[aesop safe apply (rule_sets := [Pres])]
-theorem spawnLoop_presR (S : SpecCoreR I) (rec : Rec) (hrec : ∀ t, Pres I (rec t)) (wuid rem : Nat) (wt : Waiter) : Pres I (spawnLoop rec wuid rem wt) := by
-  have L := S.toLeafR
+theorem spawnLoop_presE (S : SpecCoreRE I) (rec : Rec) (hrec : ∀ t, Pres I (rec t)) (wuid rem : Nat) (wt : Waiter) : Pres I (spawnLoop rec wuid rem wt) := by
+  have L := S.toLeafRE
+  have LW := L.toLeafWE
   unfold spawnLoop; aesop (add safe apply hrec) (rule_sets := [Pres]) (config := { terminal := true, useDefaultSimpSet := false, useSimpAll := false, maxRuleApplications := 3000 })
 @[aesop safe apply (rule_sets := [Pres])]
-theorem spawnProcesses_presR (S : SpecCoreR I) (rec : Rec) (hrec : ∀ t, Pres I (rec t)) (wuid : Nat) (wt : Waiter) : Pres I (spawnProcesses rec wuid wt) := by
-  have L := S.toLeafR
+theorem spawnProcesses_presE (S : SpecCoreRE I) (rec : Rec) (hrec : ∀ t, Pres I (rec t)) (wuid : Nat) (wt : Waiter) : Pres I (spawnProcesses rec wuid wt) := by
+  have L := S.toLeafRE
+  have LW := L.toLeafWE
   rw [spawnProcesses_eq]; aesop (add safe apply hrec) (rule_sets := [Pres]) (config := { terminal := true, useDefaultSimpSet := false, useSimpAll := false, maxRuleApplications := 3000 })
 @[aesop safe apply (rule_sets := [Pres])]
-theorem popKilled_presR (S : SpecCoreR I) (rec : Rec) (hrec : ∀ t, Pres I (rec t)) (wuid : Nat) (tk : List Nat) (v : Val) (wt : Waiter) : Pres I (popKilled rec wuid tk v wt) := by
-  have L := S.toLeafR
+theorem popKilled_presE (S : SpecCoreRE I) (rec : Rec) (hrec : ∀ t, Pres I (rec t)) (wuid : Nat) (tk : List Nat) (v : Val) (wt : Waiter) : Pres I (popKilled rec wuid tk v wt) := by
+  have L := S.toLeafRE
+  have LW := L.toLeafWE
   unfold popKilled; aesop (add safe apply hrec) (rule_sets := [Pres]) (config := { terminal := true, useDefaultSimpSet := false, useSimpAll := false, maxRuleApplications := 3000 })
 @[aesop safe apply (rule_sets := [Pres])]
-theorem manageTail_presR (S : SpecCoreR I) (rec : Rec) (hrec : ∀ t, Pres I (rec t)) (wuid : Nat) (wt : Waiter) : Pres I (manageTail rec wuid wt) := by
-  have L := S.toLeafR
+theorem manageTail_presE (S : SpecCoreRE I) (rec : Rec) (hrec : ∀ t, Pres I (rec t)) (wuid : Nat) (wt : Waiter) : Pres I (manageTail rec wuid wt) := by
+  have L := S.toLeafRE
+  have LW := L.toLeafWE
   unfold manageTail; aesop (add safe apply hrec) (rule_sets := [Pres]) (config := { terminal := true, useDefaultSimpSet := false, useSimpAll := false, maxRuleApplications := 3000 })
 @[aesop safe apply (rule_sets := [Pres])]
-theorem manageAfterExpire_presR (S : SpecCoreR I) (rec : Rec) (hrec : ∀ t, Pres I (rec t)) (wuid : Nat) (wt : Waiter) : Pres I (manageAfterExpire rec wuid wt) := by
-  have L := S.toLeafR
+theorem manageAfterExpire_presE (S : SpecCoreRE I) (rec : Rec) (hrec : ∀ t, Pres I (rec t)) (wuid : Nat) (wt : Waiter) : Pres I (manageAfterExpire rec wuid wt) := by
+  have L := S.toLeafRE
+  have LW := L.toLeafWE
   unfold manageAfterExpire; aesop (add safe apply hrec) (rule_sets := [Pres]) (config := { terminal := true, useDefaultSimpSet := false, useSimpAll := false, maxRuleApplications := 3000 })
 @[aesop safe apply (rule_sets := [Pres])]
-theorem removeExpired_presR (S : SpecCoreR I) (rec : Rec) (hrec : ∀ t, Pres I (rec t)) (wuid : Nat) (wt : Waiter) : Pres I (removeExpired rec wuid wt) := by
-  have L := S.toLeafR
+theorem removeExpired_presE (S : SpecCoreRE I) (rec : Rec) (hrec : ∀ t, Pres I (rec t)) (wuid : Nat) (wt : Waiter) : Pres I (removeExpired rec wuid wt) := by
+  have L := S.toLeafRE
+  have LW := L.toLeafWE
   unfold removeExpired; aesop (add safe apply hrec) (rule_sets := [Pres]) (config := { terminal := true, useDefaultSimpSet := false, useSimpAll := false, maxRuleApplications := 3000 })
 @[aesop safe apply (rule_sets := [Pres])]
-theorem manageProcesses_presR (S : SpecCoreR I) (rec : Rec) (hrec : ∀ t, Pres I (rec t)) (wuid : Nat) (wt : Waiter) : Pres I (manageProcesses rec wuid wt) := by
-  have L := S.toLeafR
+theorem manageProcesses_presE (S : SpecCoreRE I) (rec : Rec) (hrec : ∀ t, Pres I (rec t)) (wuid : Nat) (wt : Waiter) : Pres I (manageProcesses rec wuid wt) := by
+  have L := S.toLeafRE
+  have LW := L.toLeafWE
   unfold manageProcesses; aesop (add safe apply hrec) (rule_sets := [Pres]) (config := { terminal := true, useDefaultSimpSet := false, useSimpAll := false, maxRuleApplications := 3000 })
 @[aesop safe apply (rule_sets := [Pres])]
-theorem startW_presR (S : SpecCoreR I) (rec : Rec) (hrec : ∀ t, Pres I (rec t)) (wuid : Nat) (wt : Waiter) : Pres I (startW rec wuid wt) := by
-  have L := S.toLeafR
+theorem startW_presE (S : SpecCoreRE I) (rec : Rec) (hrec : ∀ t, Pres I (rec t)) (wuid : Nat) (wt : Waiter) : Pres I (startW rec wuid wt) := by
+  have L := S.toLeafRE
+  have LW := L.toLeafWE
   unfold startW; aesop (add safe apply hrec) (rule_sets := [Pres]) (config := { terminal := true, useDefaultSimpSet := false, useSimpAll := false, maxRuleApplications := 3000 })
 @[aesop safe apply (rule_sets := [Pres])]
-theorem startAfterSpawn_presR (S : SpecCoreR I) (rec : Rec) (hrec : ∀ t, Pres I (rec t)) (wuid : Nat) (wt : Waiter) : Pres I (startAfterSpawn rec wuid wt) := by
-  have L := S.toLeafR
+theorem startAfterSpawn_presE (S : SpecCoreRE I) (rec : Rec) (hrec : ∀ t, Pres I (rec t)) (wuid : Nat) (wt : Waiter) : Pres I (startAfterSpawn rec wuid wt) := by
+  have L := S.toLeafRE
+  have LW := L.toLeafWE
   unfold startAfterSpawn; aesop (add safe apply hrec) (rule_sets := [Pres]) (config := { terminal := true, useDefaultSimpSet := false, useSimpAll := false, maxRuleApplications := 3000 })
 @[aesop safe apply (rule_sets := [Pres])]
-theorem reloadW_presR (S : SpecCoreR I) (rec : Rec) (hrec : ∀ t, Pres I (rec t)) (wuid : Nat) (g sq : Bool) (wt : Waiter) : Pres I (reloadW rec wuid g sq wt) := by
-  have L := S.toLeafR
+theorem reloadW_presE (S : SpecCoreRE I) (rec : Rec) (hrec : ∀ t, Pres I (rec t)) (wuid : Nat) (g sq : Bool) (wt : Waiter) : Pres I (reloadW rec wuid g sq wt) := by
+  have L := S.toLeafRE
+  have LW := L.toLeafWE
   unfold reloadW; aesop (add safe apply hrec) (rule_sets := [Pres]) (config := { terminal := true, useDefaultSimpSet := false, useSimpAll := false, maxRuleApplications := 3000 })
 @[aesop safe apply (rule_sets := [Pres])]
-theorem reloadSeqNext_presR (S : SpecCoreR I) (rec : Rec) (hrec : ∀ t, Pres I (rec t)) (wuid : Nat) (rest : List Nat) (wt : Waiter) : Pres I (reloadSeqNext rec wuid rest wt) := by
-  have L := S.toLeafR
+theorem reloadSeqNext_presE (S : SpecCoreRE I) (rec : Rec) (hrec : ∀ t, Pres I (rec t)) (wuid : Nat) (rest : List Nat) (wt : Waiter) : Pres I (reloadSeqNext rec wuid rest wt) := by
+  have L := S.toLeafRE
+  have LW := L.toLeafWE
   unfold reloadSeqNext; aesop (add safe apply hrec) (rule_sets := [Pres]) (config := { terminal := true, useDefaultSimpSet := false, useSimpAll := false, maxRuleApplications := 3000 })
 @[aesop safe apply (rule_sets := [Pres])]
-theorem reloadSeqAfterKill_presR (S : SpecCoreR I) (rec : Rec) (hrec : ∀ t, Pres I (rec t)) (wuid pid : Nat) (rest : List Nat) (wt : Waiter) : Pres I (reloadSeqAfterKill rec wuid pid rest wt) := by
-  have L := S.toLeafR
+theorem reloadSeqAfterKill_presE (S : SpecCoreRE I) (rec : Rec) (hrec : ∀ t, Pres I (rec t)) (wuid pid : Nat) (rest : List Nat) (wt : Waiter) : Pres I (reloadSeqAfterKill rec wuid pid rest wt) := by
+  have L := S.toLeafRE
+  have LW := L.toLeafWE
   unfold reloadSeqAfterKill; aesop (add safe apply hrec) (rule_sets := [Pres]) (config := { terminal := true, useDefaultSimpSet := false, useSimpAll := false, maxRuleApplications := 3000 })
 @[aesop safe apply (rule_sets := [Pres])]
-theorem setNumprocesses_presR (S : SpecCoreR I) (rec : Rec) (hrec : ∀ t, Pres I (rec t)) (wuid : Nat) (n : Int) (wt : Waiter) : Pres I (setNumprocesses rec wuid n wt) := by
-  have L := S.toLeafR
+theorem setNumprocesses_presE (S : SpecCoreRE I) (rec : Rec) (hrec : ∀ t, Pres I (rec t)) (wuid : Nat) (n : Int) (wt : Waiter) : Pres I (setNumprocesses rec wuid n wt) := by
+  have L := S.toLeafRE
+  have LW := L.toLeafWE
   unfold setNumprocesses; aesop (add safe apply hrec) (rule_sets := [Pres]) (config := { terminal := true, useDefaultSimpSet := false, useSimpAll := false, maxRuleApplications := 3000 })
 @[aesop safe apply (rule_sets := [Pres])]
-theorem doAction_presR (S : SpecCoreR I) (rec : Rec) (hrec : ∀ t, Pres I (rec t)) (wuid : Nat) (n : Int) (wt : Waiter) : Pres I (doAction rec wuid n wt) := by
-  have L := S.toLeafR
+theorem doAction_presE (S : SpecCoreRE I) (rec : Rec) (hrec : ∀ t, Pres I (rec t)) (wuid : Nat) (n : Int) (wt : Waiter) : Pres I (doAction rec wuid n wt) := by
+  have L := S.toLeafRE
+  have LW := L.toLeafWE
   unfold doAction; aesop (add safe apply hrec) (rule_sets := [Pres]) (config := { terminal := true, useDefaultSimpSet := false, useSimpAll := false, maxRuleApplications := 3000 })
 @[aesop safe apply (rule_sets := [Pres])]
-theorem pubInfo_presR (S : SpecCoreR I) (rec : Rec) (hrec : ∀ t, Pres I (rec t)) (wuid : Nat) (b : List Nat) (wt : Waiter) : Pres I (pubInfo rec wuid b wt) := by
-  have L := S.toLeafR
+theorem pubInfo_presE (S : SpecCoreRE I) (rec : Rec) (hrec : ∀ t, Pres I (rec t)) (wuid : Nat) (b : List Nat) (wt : Waiter) : Pres I (pubInfo rec wuid b wt) := by
+  have L := S.toLeafRE
+  have LW := L.toLeafWE
   unfold pubInfo; aesop (add safe apply hrec) (rule_sets := [Pres]) (config := { terminal := true, useDefaultSimpSet := false, useSimpAll := false, maxRuleApplications := 3000 })
 @[aesop safe apply (rule_sets := [Pres])]
-theorem arbStartNext_presR (S : SpecCoreR I) (rec : Rec) (hrec : ∀ t, Pres I (rec t)) (ws : List Nat) (wt : Waiter) : Pres I (arbStartNext rec ws wt) := by
-  have L := S.toLeafR
+theorem arbStartNext_presE (S : SpecCoreRE I) (rec : Rec) (hrec : ∀ t, Pres I (rec t)) (ws : List Nat) (wt : Waiter) : Pres I (arbStartNext rec ws wt) := by
+  have L := S.toLeafRE
+  have LW := L.toLeafWE
   unfold arbStartNext; aesop (add safe apply hrec) (rule_sets := [Pres]) (config := { terminal := true, useDefaultSimpSet := false, useSimpAll := false, maxRuleApplications := 3000 })
 @[aesop safe apply (rule_sets := [Pres])]
-theorem arbStartAfterStart_presR (S : SpecCoreR I) (rec : Rec) (hrec : ∀ t, Pres I (rec t)) (ws : List Nat) (wt : Waiter) : Pres I (arbStartAfterStart rec ws wt) := by
-  have L := S.toLeafR
+theorem arbStartAfterStart_presE (S : SpecCoreRE I) (rec : Rec) (hrec : ∀ t, Pres I (rec t)) (ws : List Nat) (wt : Waiter) : Pres I (arbStartAfterStart rec ws wt) := by
+  have L := S.toLeafRE
+  have LW := L.toLeafWE
   unfold arbStartAfterStart; aesop (add safe apply hrec) (rule_sets := [Pres]) (config := { terminal := true, useDefaultSimpSet := false, useSimpAll := false, maxRuleApplications := 3000 })
 @[aesop safe apply (rule_sets := [Pres])]
-theorem arbStopTail_presR (S : SpecCoreR I) (rec : Rec) (hrec : ∀ t, Pres I (rec t)) (wt : Waiter) : Pres I (arbStopTail rec wt) := by
-  have L := S.toLeafR
+theorem arbStopTail_presE (S : SpecCoreRE I) (rec : Rec) (hrec : ∀ t, Pres I (rec t)) (wt : Waiter) : Pres I (arbStopTail rec wt) := by
+  have L := S.toLeafRE
+  have LW := L.toLeafWE
   unfold arbStopTail; aesop (add safe apply hrec) (rule_sets := [Pres]) (config := { terminal := true, useDefaultSimpSet := false, useSimpAll := false, maxRuleApplications := 3000 })
 @[aesop safe apply (rule_sets := [Pres])]
-theorem arbStop_presR (S : SpecCoreR I) (rec : Rec) (hrec : ∀ t, Pres I (rec t)) (wt : Waiter) : Pres I (arbStop rec wt) := by
-  have L := S.toLeafR
+theorem arbStop_presE (S : SpecCoreRE I) (rec : Rec) (hrec : ∀ t, Pres I (rec t)) (wt : Waiter) : Pres I (arbStop rec wt) := by
+  have L := S.toLeafRE
+  have LW := L.toLeafWE
   unfold arbStop; aesop (add safe apply hrec) (rule_sets := [Pres]) (config := { terminal := true, useDefaultSimpSet := false, useSimpAll := false, maxRuleApplications := 3000 })
 @[aesop safe apply (rule_sets := [Pres])]
-theorem arbRestartInside_presR (S : SpecCoreR I) (rec : Rec) (hrec : ∀ t, Pres I (rec t)) (wt : Waiter) : Pres I (arbRestartInside rec wt) := by
-  have L := S.toLeafR
+theorem arbRestartInside_presE (S : SpecCoreRE I) (rec : Rec) (hrec : ∀ t, Pres I (rec t)) (wt : Waiter) : Pres I (arbRestartInside rec wt) := by
+  have L := S.toLeafRE
+  have LW := L.toLeafWE
   unfold arbRestartInside; aesop (add safe apply hrec) (rule_sets := [Pres]) (config := { terminal := true, useDefaultSimpSet := false, useSimpAll := false, maxRuleApplications := 3000 })
 @[aesop safe apply (rule_sets := [Pres])]
-theorem arbReloadNext_presR (S : SpecCoreR I) (rec : Rec) (hrec : ∀ t, Pres I (rec t)) (ws : List Nat) (g sq : Bool) (wt : Waiter) : Pres I (arbReloadNext rec ws g sq wt) := by
-  have L := S.toLeafR
+theorem arbReloadNext_presE (S : SpecCoreRE I) (rec : Rec) (hrec : ∀ t, Pres I (rec t)) (ws : List Nat) (g sq : Bool) (wt : Waiter) : Pres I (arbReloadNext rec ws g sq wt) := by
+  have L := S.toLeafRE
+  have LW := L.toLeafWE
   unfold arbReloadNext; aesop (add safe apply hrec) (rule_sets := [Pres]) (config := { terminal := true, useDefaultSimpSet := false, useSimpAll := false, maxRuleApplications := 3000 })
 @[aesop safe apply (rule_sets := [Pres])]
-theorem arbReloadAfter_presR (S : SpecCoreR I) (rec : Rec) (hrec : ∀ t, Pres I (rec t)) (ws : List Nat) (g sq : Bool) (wt : Waiter) : Pres I (arbReloadAfter rec ws g sq wt) := by
-  have L := S.toLeafR
+theorem arbReloadAfter_presE (S : SpecCoreRE I) (rec : Rec) (hrec : ∀ t, Pres I (rec t)) (ws : List Nat) (g sq : Bool) (wt : Waiter) : Pres I (arbReloadAfter rec ws g sq wt) := by
+  have L := S.toLeafRE
+  have LW := L.toLeafWE
   unfold arbReloadAfter; aesop (add safe apply hrec) (rule_sets := [Pres]) (config := { terminal := true, useDefaultSimpSet := false, useSimpAll := false, maxRuleApplications := 3000 })
 @[aesop safe apply (rule_sets := [Pres])]
-theorem manageWatchers_presR (S : SpecCoreR I) (rec : Rec) (hrec : ∀ t, Pres I (rec t)) (wt : Waiter) : Pres I (manageWatchers rec wt) := by
-  have L := S.toLeafR
+theorem manageWatchers_presE (S : SpecCoreRE I) (rec : Rec) (hrec : ∀ t, Pres I (rec t)) (wt : Waiter) : Pres I (manageWatchers rec wt) := by
+  have L := S.toLeafRE
+  have LW := L.toLeafWE
   unfold manageWatchers; aesop (add safe apply hrec) (rule_sets := [Pres]) (config := { terminal := true, useDefaultSimpSet := false, useSimpAll := false, maxRuleApplications := 3000 })
 @[aesop safe apply (rule_sets := [Pres])]
-theorem rmWatcher_presR (S : SpecCoreR I) (rec : Rec) (hrec : ∀ t, Pres I (rec t)) (uid : Nat) (ns : Bool) (wt : Waiter) : Pres I (rmWatcher rec uid ns wt) := by
-  have L := S.toLeafR
+theorem rmWatcher_presE (S : SpecCoreRE I) (rec : Rec) (hrec : ∀ t, Pres I (rec t)) (uid : Nat) (ns : Bool) (wt : Waiter) : Pres I (rmWatcher rec uid ns wt) := by
+  have L := S.toLeafRE
+  have LW := L.toLeafWE
   unfold rmWatcher; aesop (add safe apply hrec) (rule_sets := [Pres]) (config := { terminal := true, useDefaultSimpSet := false, useSimpAll := false, maxRuleApplications := 3000 })
 @[aesop safe apply (rule_sets := [Pres])]
-theorem manageWatchersTail_presR (S : SpecCoreR I) (rec : Rec) (hrec : ∀ t, Pres I (rec t)) (need : Bool) (wt : Waiter) : Pres I (manageWatchersTail rec need wt) := by
-  have L := S.toLeafR
+theorem manageWatchersTail_presE (S : SpecCoreRE I) (rec : Rec) (hrec : ∀ t, Pres I (rec t)) (need : Bool) (wt : Waiter) : Pres I (manageWatchersTail rec need wt) := by
+  have L := S.toLeafRE
+  have LW := L.toLeafWE
   have hnt : Pres I (newTop [TopCb.watch]) := S.newTopNR _ (by simp)
   unfold manageWatchersTail; aesop (add safe apply hrec, safe apply hnt) (rule_sets := [Pres]) (config := { terminal := true, useDefaultSimpSet := false, useSimpAll := false, maxRuleApplications := 3000 })
 @[aesop safe apply (rule_sets := [Pres])]
-theorem runCall_presR (S : SpecCoreR I) (rec : Rec) (hrec : ∀ t, Pres I (rec t)) (c : Call) (wt : Waiter) : Pres I (runCall rec c wt) := by
-  have L := S.toLeafR
+theorem runCall_presE (S : SpecCoreRE I) (rec : Rec) (hrec : ∀ t, Pres I (rec t)) (c : Call) (wt : Waiter) : Pres I (runCall rec c wt) := by
+  have L := S.toLeafRE
+  have LW := L.toLeafWE
   unfold runCall; aesop (add safe apply hrec) (rule_sets := [Pres]) (config := { terminal := true, useDefaultSimpSet := false, useSimpAll := false, maxRuleApplications := 3000 })
 @[aesop safe apply (rule_sets := [Pres])]
-theorem runResume_presR (S : SpecCoreR I) (rec : Rec) (hrec : ∀ t, Pres I (rec t)) (k : Kont) (v : Val) (wt : Waiter) : Pres I (runResume rec k v wt) := by
-  have L := S.toLeafR
+theorem runResume_presE (S : SpecCoreRE I) (rec : Rec) (hrec : ∀ t, Pres I (rec t)) (k : Kont) (v : Val) (wt : Waiter) : Pres I (runResume rec k v wt) := by
+  have L := S.toLeafRE
+  have LW := L.toLeafWE
   unfold runResume; aesop (add safe apply hrec) (rule_sets := [Pres]) (config := { terminal := true, useDefaultSimpSet := false, useSimpAll := false, maxRuleApplications := 3000 })
-theorem exec_presR (S : SpecCoreR I) (n : Nat) (t : Task) : Pres I (exec n t) := by
-  have L := S.toLeafR
+theorem exec_presE (S : SpecCoreRE I) (n : Nat) (t : Task) : Pres I (exec n t) := by
+  have L := S.toLeafRE
+  have LW := L.toLeafWE
   induction n generalizing t with
   | zero => unfold exec; pres
   | succ n ih =>
@@ -468,157 +682,467 @@ theorem exec_presR (S : SpecCoreR I) (n : Nat) (t : Task) : Pres I (exec n t) :=
     aesop (add safe apply ih) (rule_sets := [Pres]) (config := { terminal := true, useDefaultSimpSet := false, useSimpAll := false, maxRuleApplications := 3000 })
 /-! ### dispatch and commands -/
 @[aesop safe apply (rule_sets := [Pres])]
-theorem lookupWatcher_presR (L : LeafR I) (n : String) : Pres I (lookupWatcher n) := by
+theorem lookupWatcher_presE (L : LeafRE I) (n : String) : Pres I (lookupWatcher n) := by
+  have LW := L.toLeafWE
   unfold lookupWatcher; pres
 @[aesop safe apply (rule_sets := [Pres])]
-theorem getWatcherCmd_presR (L : LeafR I) (n : JVal) : Pres I (getWatcherCmd n) := by
+theorem getWatcherCmd_presE (L : LeafRE I) (n : JVal) : Pres I (getWatcherCmd n) := by
+  have LW := L.toLeafWE
   unfold getWatcherCmd; pres
 @[aesop safe apply (rule_sets := [Pres])]
-theorem matchWatchers_presR (L : LeafR I) (p : JVal) : Pres I (matchWatchers p) := by
+theorem matchWatchers_presE (L : LeafRE I) (p : JVal) : Pres I (matchWatchers p) := by
+  have LW := L.toLeafWE
   unfold matchWatchers; pres
 @[aesop safe apply (rule_sets := [Pres])]
-theorem sortUids_presR (L : LeafR I) (us : List Nat) (r : Bool) : Pres I (sortUids us r) := by
+theorem sortUids_presE (L : LeafRE I) (us : List Nat) (r : Bool) : Pres I (sortUids us r) := by
+  have LW := L.toLeafWE
   unfold sortUids; pres
 @[aesop safe apply (rule_sets := [Pres])]
-theorem plainCoroutine_presR (S : SpecCoreR I) (c : Call) : Pres I (plainCoroutine c []) := by
-  have L := S.toLeafR
+theorem plainCoroutine_presE (S : SpecCoreRE I) (c : Call) : Pres I (plainCoroutine c []) := by
+  have L := S.toLeafRE
+  have LW := L.toLeafWE
   have h1 : Pres I (newTop ([] : List TopCb)) := S.newTopNR _ (by simp)
-  have h2 := exec_presR S
+  have h2 := exec_presE S
   unfold plainCoroutine
   aesop (add safe apply h1, safe apply h2) (rule_sets := [Pres]) (config := { terminal := true, useDefaultSimpSet := false, useSimpAll := false, maxRuleApplications := 3000 })
 @[aesop safe apply (rule_sets := [Pres])]
-theorem syncCoroutine_presR (S : SpecCoreR I) (name : String) (c : Call) : Pres I (syncCoroutine name c []) :=
-  S.syncCo (exec_presR S) name c
+theorem syncCoroutine_presE (S : SpecCoreRE I) (name : String) (c : Call) : Pres I (syncCoroutine name c []) :=
+  S.syncCo (exec_presE S) name c
 @[aesop safe apply (rule_sets := [Pres])]
-theorem execSSR_presR (S : SpecCoreR I) (kind : String) (p : JVal) : Pres I (execSSR kind p) := by
-  have L := S.toLeafR
+theorem execSSR_presE (S : SpecCoreRE I) (kind : String) (p : JVal) : Pres I (execSSR kind p) := by
+  have L := S.toLeafRE
+  have LW := L.toLeafWE
   unfold execSSR; pres
 @[aesop safe apply (rule_sets := [Pres])]
-theorem execIncrDecr_presR (S : SpecCoreR I) (sg : Int) (p : JVal) : Pres I (execIncrDecr sg p) := by
-  have L := S.toLeafR
+theorem execIncrDecr_presE (S : SpecCoreRE I) (sg : Int) (p : JVal) : Pres I (execIncrDecr sg p) := by
+  have L := S.toLeafRE
+  have LW := L.toLeafWE
   unfold execIncrDecr; pres
 @[aesop safe apply (rule_sets := [Pres])]
-theorem execReload_presR (S : SpecCoreR I) (p : JVal) : Pres I (execReload p) := by
-  have L := S.toLeafR
+theorem execReload_presE (S : SpecCoreRE I) (p : JVal) : Pres I (execReload p) := by
+  have L := S.toLeafRE
+  have LW := L.toLeafWE
   unfold execReload; pres
 @[aesop safe apply (rule_sets := [Pres])]
-theorem execSet_presR (S : SpecCoreR I) (p : JVal) : Pres I (execSet p) := by
-  have L := S.toLeafR
+theorem execSet_presE (S : SpecCoreRE I) (p : JVal) : Pres I (execSet p) := by
+  have L := S.toLeafRE
+  have LW := L.toLeafWE
   unfold execSet; pres
 @[aesop safe apply (rule_sets := [Pres])]
-theorem execKill_presR (S : SpecCoreR I) (p : JVal) : Pres I (execKill p) := by
-  have L := S.toLeafR
+theorem execKill_presE (S : SpecCoreRE I) (p : JVal) : Pres I (execKill p) := by
+  have L := S.toLeafRE
+  have LW := L.toLeafWE
   unfold execKill; pres
 @[aesop safe apply (rule_sets := [Pres])]
-theorem execSignal_presR (S : SpecCoreR I) (p : JVal) : Pres I (execSignal p) := by
-  have L := S.toLeafR
+theorem execSignal_presE (S : SpecCoreRE I) (p : JVal) : Pres I (execSignal p) := by
+  have L := S.toLeafRE
+  have LW := L.toLeafWE
   unfold execSignal; pres
 @[aesop safe apply (rule_sets := [Pres])]
-theorem execRm_presR (S : SpecCoreR I) (p : JVal) : Pres I (execRm p) := by
-  have L := S.toLeafR
+theorem execRm_presE (S : SpecCoreRE I) (p : JVal) : Pres I (execRm p) := by
+  have L := S.toLeafRE
+  have LW := L.toLeafWE
   unfold execRm; pres
 @[aesop safe apply (rule_sets := [Pres])]
-theorem execAdd_presR (S : SpecCoreR I) (p : JVal) : Pres I (execAdd p) := by
-  have L := S.toLeafR
+theorem execAdd_presE (S : SpecCoreRE I) (p : JVal) : Pres I (execAdd p) := by
+  have L := S.toLeafRE
+  have LW := L.toLeafWE
   unfold execAdd; pres
 @[aesop safe apply (rule_sets := [Pres])]
-theorem execReadOnly_presR (S : SpecCoreR I) (c : String) (p : JVal) : Pres I (execReadOnly c p) := by
-  have L := S.toLeafR
+theorem execReadOnly_presE (S : SpecCoreRE I) (c : String) (p : JVal) : Pres I (execReadOnly c p) := by
+  have L := S.toLeafRE
+  have LW := L.toLeafWE
   unfold execReadOnly; pres
 @[aesop safe apply (rule_sets := [Pres])]
-theorem validateExecute_presR (S : SpecCoreR I) (c : String) (p : JVal) : Pres I (validateExecute c p) := by
-  have L := S.toLeafR
+theorem validateExecute_presE (S : SpecCoreRE I) (c : String) (p : JVal) : Pres I (validateExecute c p) := by
+  have L := S.toLeafRE
+  have LW := L.toLeafWE
   unfold validateExecute; pres
 @[aesop safe apply (rule_sets := [Pres])]
-theorem handleMessage_presR (S : SpecMR I) (cid : Option String) (msg : Option JVal) : Pres I (handleMessage cid msg) := by
-  have L := S.toLeafR
+theorem handleMessage_presE (S : SpecMRE I) (cid : Option String) (msg : Option JVal) : Pres I (handleMessage cid msg) := by
+  have L := S.toLeafRE
+  have LW := L.toLeafWE
   have hadd : ∀ tid a b c d e f, Pres I (addDoneCallback tid (TopCb.reply a b c d e f)) :=
     fun tid a b c d e f => S.addDone _ _ (by simp)
   have hrep := S.emitRep
-  have hve := validateExecute_presR S.toSpecCoreR
+  have hve := validateExecute_presE S.toSpecCoreRE
   unfold handleMessage
   aesop (add safe apply hadd, safe apply hrep, safe apply hve) (rule_sets := [Pres]) (config := { terminal := true, useDefaultSimpSet := false, useSimpAll := false, maxRuleApplications := 3000 })
 @[aesop safe apply (rule_sets := [Pres])]
-theorem sigQuit_presR (S : SpecMR I) : Pres I sigQuit := by
-  have L := S.toLeafR
-  have h := handleMessage_presR S
+theorem sigQuit_presE (S : SpecMRE I) : Pres I sigQuit := by
+  have L := S.toLeafRE
+  have LW := L.toLeafWE
+  have h := handleMessage_presE S
   unfold sigQuit
   aesop (add safe apply h) (rule_sets := [Pres])
     (config := { terminal := true, useDefaultSimpSet := false, useSimpAll := false, maxRuleApplications := 3000 })
-theorem settle_presR (S : SpecR I) (n : Nat) : Pres I (settle n) := by
-  have L := S.toLeafR
-  have hs := S.settleStep (exec_presR S.toSpecCoreR) (sigQuit_presR S.toSpecMR)
+theorem settle_presE (S : SpecRE I) (n : Nat) : Pres I (settle n) := by
+  have L := S.toLeafRE
+  have LW := L.toLeafWE
+  have hs := S.settleStep (exec_presE S.toSpecCoreRE) (sigQuit_presE S.toSpecMRE)
   induction n with
   | zero => unfold settle; pres
   | succ n ih =>
     unfold settle
     aesop (add safe apply ih, safe apply hs) (rule_sets := [Pres]) (config := { terminal := true, useDefaultSimpSet := false, useSimpAll := false, maxRuleApplications := 3000 })
-theorem stepOp_presR (S : SpecMR I) (op : Op) : Pres I (stepOp op) := by
-  have L := S.toLeafR
+theorem stepOp_presE (S : SpecMRE I) (op : Op) : Pres I (stepOp op) := by
+  have L := S.toLeafRE
+  have LW := L.toLeafWE
   have hadd : ∀ tid, Pres I (addDoneCallback tid TopCb.watch) := fun tid => S.addDone _ _ (by simp)
-  have he := exec_presR S.toSpecCoreR
-  have hh := handleMessage_presR S
-  have hq := sigQuit_presR S
-  have hsc := syncCoroutine_presR S.toSpecCoreR
-  have hadv : ∀ ms ds, Pres I (updK fun k => k.advance ms ds) := fun ms ds => updK_pres L.toLeafK _ (fun k => KStep.advance k ms ds)
-  have hdie : ∀ p st, Pres I (updK fun k => k.die p st) := fun p st => updK_pres L.toLeafK _ (fun k => KStep.die k p st)
-  have hflt : ∀ n p st, Pres I (updK fun k => k.addFault n p st) := fun n p st => updK_pres L.toLeafK _ (fun k => KStep.addFault k n p st)
+  have he := exec_presE S.toSpecCoreRE
+  have hh := handleMessage_presE S
+  have hq := sigQuit_presE S
+  have hsc := syncCoroutine_presE S.toSpecCoreRE
+  have hadv : ∀ ms ds, Pres I (updK fun k => k.advance ms ds) := fun ms ds => updK_pres LW.toLeafK _ (fun k => KStep.advance k ms ds)
+  have hdie : ∀ p st, Pres I (updK fun k => k.die p st) := fun p st => updK_pres LW.toLeafK _ (fun k => KStep.die k p st)
+  have hflt : ∀ n p st, Pres I (updK fun k => k.addFault n p st) := fun n p st => updK_pres LW.toLeafK _ (fun k => KStep.addFault k n p st)
   cases op <;> simp only [stepOp] <;>
   aesop (add safe apply hadd, safe apply he, safe apply hh, safe apply hq, safe apply hsc, safe apply hadv, safe apply hdie, safe apply hflt) (rule_sets := [Pres])
     (config := { terminal := true, useDefaultSimpSet := false, useSimpAll := false, maxRuleApplications := 3000 })
-theorem stepTail_presR (S : SpecR I) : Pres I stepTail := by
-  have L := S.toLeafR
-  have hst := settle_presR S
+theorem stepTail_presE (S : SpecRE I) : Pres I stepTail := by
+  have L := S.toLeafRE
+  have LW := L.toLeafWE
+  have hst := settle_presE S
   have hsc := S.stopController
   unfold stepTail
   aesop (add safe apply hst, safe apply hsc) (rule_sets := [Pres])
     (config := { terminal := true, useDefaultSimpSet := false, useSimpAll := false, maxRuleApplications := 3000 })
-theorem stepM_presR (S : SpecR I) (op : Op) : Pres I (stepM op) := by
-  have L := S.toLeafR
-  have h1 := stepOp_presR S.toSpecMR
-  have h2 := stepTail_presR S
-  have h3 : Pres I (updK Kernel.beginStep) := updK_pres L.toLeafK _ KStep.beginStep
+theorem stepM_presE (S : SpecRE I) (op : Op) : Pres I (stepM op) := by
+  have L := S.toLeafRE
+  have LW := L.toLeafWE
+  have h1 := stepOp_presE S.toSpecMRE
+  have h2 := stepTail_presE S
+  have h3 : Pres I (updK Kernel.beginStep) := updK_pres LW.toLeafK _ KStep.beginStep
   unfold stepM
   aesop (add safe apply h1, safe apply h2, safe apply h3) (rule_sets := [Pres])
     (config := { terminal := true, useDefaultSimpSet := false, useSimpAll := false, maxRuleApplications := 3000 })
 
 /-- an invariant with a `Spec` holds along every run -/
-theorem run_presR (S : SpecR I) (s : State) (ops : List Op) (h : I s) : I (run s ops) := by
+theorem run_presE (S : SpecRE I) (s : State) (ops : List Op) (h : I s) : I (run s ops) := by
   induction ops generalizing s with
   | nil => exact h
-  | cons o os ih => exact ih _ (stepM_presR S o s h)
+  | cons o os ih => exact ih _ (stepM_presE S o s h)
 
 
-/-! ### from the full structures to the weak ones -/
 
-/-- `stop_controller_and_close_sockets`, for an invariant that survives `setClosed` -/
-theorem stopController_of (L : LeafR I) (hc : Pres I setClosed) : Pres I stopController := by
+/-! ### from the `R` chain to the `E` chain -/
+
+theorem stopController_ofE (L : LeafRE I) (hc : Pres I setClosed) : Pres I stopController := by
+  have LW := L.toLeafWE
   unfold stopController
   aesop (add safe apply hc) (rule_sets := [Pres]) (config := { terminal := true, useDefaultSimpSet := false, useSimpAll := false, maxRuleApplications := 3000 })
 
-/-- `spawn_process`'s attempts, for an invariant that survives `spawnAdopt` for any watcher -/
-theorem spawnTry_of (L : LeafR I) (hsa : ∀ u w, Pres I (spawnAdopt u w))
+/-- `spawn_process`'s attempts, for an invariant that survives `spawnAdopt` for any watcher and a
+    `spawn` event for any pid -/
+theorem spawnTry_ofE (L : LeafRE I) (hsa : ∀ u w, Pres I (spawnAdopt u w))
     (hnew : ∀ cbs, TopCb.release ∉ cbs → Pres I (newTop cbs))
+    (hsp : ∀ w p x, Pres I (emitEv w "spawn" p x))
     (rec : Rec) (hrec : ∀ t, Pres I (rec t)) (wuid n : Nat) : Pres I (spawnTry rec wuid n) := by
+  have LW := L.toLeafWE
+  have hn : ∀ q x, Pres I (notify wuid "spawn" q x) := by
+    intro q x; unfold notify; aesop (add safe apply hsp) (rule_sets := [Pres]) (config := { terminal := true, useDefaultSimpSet := false, useSimpAll := false, maxRuleApplications := 3000 })
   induction n with
   | zero => unfold spawnTry; pres
   | succ n ih =>
     unfold spawnTry
     have hnew2 : ∀ pid, Pres I (newTop [TopCb.popProc wuid pid]) := fun pid => hnew _ (by simp)
-    aesop (add safe apply ih, safe apply hrec, safe apply hnew2, safe apply hsa) (rule_sets := [Pres]) (config := { terminal := true, useDefaultSimpSet := false, useSimpAll := false, maxRuleApplications := 3000 })
+    aesop (add safe apply ih, safe apply hrec, safe apply hnew2, safe apply hsa, safe apply hn) (rule_sets := [Pres]) (config := { terminal := true, useDefaultSimpSet := false, useSimpAll := false, maxRuleApplications := 3000 })
 
-theorem spawnProcess_of (L : LeafR I) (hsa : ∀ u w, Pres I (spawnAdopt u w))
+theorem spawnProcess_ofE (L : LeafRE I) (hsa : ∀ u w, Pres I (spawnAdopt u w))
     (hnew : ∀ cbs, TopCb.release ∉ cbs → Pres I (newTop cbs))
+    (hsp : ∀ w p x, Pres I (emitEv w "spawn" p x))
     (rec : Rec) (hrec : ∀ t, Pres I (rec t)) (wuid : Nat) : Pres I (spawnProcess rec wuid) := by
-  have h := spawnTry_of L hsa hnew rec hrec wuid
+  have LW := L.toLeafWE
+  have h := spawnTry_ofE L hsa hnew hsp rec hrec wuid
   unfold spawnProcess; aesop (add safe apply h) (rule_sets := [Pres]) (config := { terminal := true, useDefaultSimpSet := false, useSimpAll := false, maxRuleApplications := 3000 })
 
-/-- `stopCore`, for an invariant that survives the status write on any watcher -/
-theorem stopCore_of (L : LeafW I) (hst : ∀ u, Pres I (setStatus u .stopped)) (u : Nat) : Pres I (stopCore u) := by
+theorem stopCore_ofE (L : LeafWE I) (hst : ∀ u, Pres I (setStatus u .stopped)) (u : Nat) : Pres I (stopCore u) := by
   unfold stopCore; aesop (add safe apply hst) (rule_sets := [Pres]) (config := { terminal := true, useDefaultSimpSet := false, useSimpAll := false, maxRuleApplications := 3000 })
 
 theorem guardedStop_of (hst : ∀ u, Pres I (setStatus u .stopped)) (u : Nat) : Pres I (guardedStop u) := by
   unfold guardedStop; aesop (add safe apply hst) (rule_sets := [Pres]) (config := { terminal := true, useDefaultSimpSet := false, useSimpAll := false, maxRuleApplications := 3000 })
+
+theorem LeafR.toLeafRE (L : LeafR I) : LeafRE I where
+  toLeafWE := L.toLeafW.toLeafWE
+  setStatus := L.setStatus
+  trySetNp := L.trySetNp
+  setWOpt := L.setWOpt
+  freshId := L.freshId
+  pushFrame := L.pushFrame
+  removeFrame := L.removeFrame
+  setFrameK := L.setFrameK
+  armFrame := L.armFrame
+  pushSleeper := L.pushSleeper
+  armTop := L.armTop
+  setStopping := L.setStopping
+  setRestarting := L.setRestarting
+  setLoopStop := L.setLoopStop
+  setSocketEvent := L.setSocketEvent
+  setSockReady := L.setSockReady
+  clearDone := L.clearDone
+  unregister := L.unregister
+  registerNew := L.registerNew
+  fireSleeper := L.fireSleeper
+  enqueueResume := L.enqueueResume
+  enqueueCallback := L.enqueueCallback
+
+attribute [aesop safe apply (rule_sets := [Pres])] LeafR.toLeafRE
+
+theorem SpecCoreR.toSpecCoreRE (S : SpecCoreR I) : SpecCoreRE I where
+  toLeafRE := S.toLeafR.toLeafRE
+  deliverTop := S.deliverTop
+  newTopNR := S.newTopNR
+  addDone := S.addDone
+  syncCo := S.syncCo
+  syncSetOpt := S.syncSetOpt
+  syncAdd := S.syncAdd
+  spawnProcess := S.spawnProcess
+  stopCore := S.stopCore
+  guardedStop := S.guardedStop
+
+theorem SpecMR.toSpecMRE (S : SpecMR I) : SpecMRE I where
+  toSpecCoreRE := S.toSpecCoreR.toSpecCoreRE
+  emitRep := S.emitRep
+
+theorem SpecR.toSpecRE (S : SpecR I) : SpecRE I where
+  toSpecMRE := S.toSpecMR.toSpecMRE
+  settleStep := S.settleStep
+  stopController := S.stopController
+
+/-! ### the same theorems for the `R` chain -/
+theorem newFrame_presR (L : LeafR I) (k : Kont) (p : Waiter) : Pres I (newFrame k p) :=
+  newFrame_presE L.toLeafRE k p
+
+theorem addSleeper_presR (L : LeafR I) (ms : Nat) (w : Waiter) : Pres I (addSleeper ms w) :=
+  addSleeper_presE L.toLeafRE ms w
+
+theorem sendReply_presR (L : LeafR I) (hrep : ∀ c i a b d, Pres I (emitRep c i a b d))
+    (cid : Option String) (id : JVal) (c : Bool) (a b d : String) :
+    Pres I (sendReply cid id c a b d) :=
+  sendReply_presE L.toLeafRE hrep cid id c a b d
+
+theorem multiCollect_presR (L : LeafR I) (rec : Rec) (hrec : ∀ t, Pres I (rec t)) (f sl : Nat) (v : Val) :
+    Pres I (multiCollect rec f sl v) :=
+  multiCollect_presE L.toLeafRE rec hrec f sl v
+
+theorem deliver_presR (S : SpecCoreR I) (rec : Rec) (hrec : ∀ t, Pres I (rec t)) (w : Waiter) (v : Val) :
+    Pres I (deliver rec w v) :=
+  deliver_presE S.toSpecCoreRE rec hrec w v
+
+theorem await_presR (S : SpecCoreR I) (rec : Rec) (hrec : ∀ t, Pres I (rec t)) (c : Call) (k : Kont) (p : Waiter) :
+    Pres I (await rec c k p) :=
+  await_presE S.toSpecCoreRE rec hrec c k p
+
+theorem awaitSleep_presR (L : LeafR I) (ms : Nat) (k : Kont) (p : Waiter) : Pres I (awaitSleep ms k p) :=
+  awaitSleep_presE L.toLeafRE ms k p
+
+theorem awaitMulti_presR (S : SpecCoreR I) (rec : Rec) (hrec : ∀ t, Pres I (rec t)) (cs : List Call) (k : Kont) (p : Waiter) :
+    Pres I (awaitMulti rec cs k p) :=
+  awaitMulti_presE S.toSpecCoreRE rec hrec cs k p
+
+theorem popStrict_presR (L : LeafR I) (u p : Nat) : Pres I (popStrict u p) :=
+  popStrict_presE L.toLeafRE u p
+
+theorem pubBefore_presR (L : LeafR I) (u : Nat) : Pres I (pubBefore u) :=
+  pubBefore_presE L.toLeafRE u
+
+theorem killFinish_presR (S : SpecCoreR I) (rec : Rec) (hrec : ∀ t, Pres I (rec t)) (wuid pid : Nat) (esc : Bool) (wt : Waiter) : Pres I (killFinish rec wuid pid esc wt) :=
+  killFinish_presE S.toSpecCoreRE rec hrec wuid pid esc wt
+
+theorem killLoop_presR (S : SpecCoreR I) (rec : Rec) (hrec : ∀ t, Pres I (rec t)) (wuid pid sig i polls : Nat) (wt : Waiter) : Pres I (killLoop rec wuid pid sig i polls wt) :=
+  killLoop_presE S.toSpecCoreRE rec hrec wuid pid sig i polls wt
+
+theorem killProcess_presR (S : SpecCoreR I) (rec : Rec) (hrec : ∀ t, Pres I (rec t)) (wuid pid : Nat) (sig gt : Option Nat) (wt : Waiter) : Pres I (killProcess rec wuid pid sig gt wt) :=
+  killProcess_presE S.toSpecCoreRE rec hrec wuid pid sig gt wt
+
+theorem killProcesses_presR (S : SpecCoreR I) (rec : Rec) (hrec : ∀ t, Pres I (rec t)) (wuid : Nat) (sig gt : Option Nat) (wt : Waiter) : Pres I (killProcesses rec wuid sig gt wt) :=
+  killProcesses_presE S.toSpecCoreRE rec hrec wuid sig gt wt
+
+theorem stopW_presR (S : SpecCoreR I) (rec : Rec) (hrec : ∀ t, Pres I (rec t)) (wuid : Nat) (close : Bool) (wt : Waiter) : Pres I (stopW rec wuid close wt) :=
+  stopW_presE S.toSpecCoreRE rec hrec wuid close wt
+
+theorem stopAfterKill_presR (S : SpecCoreR I) (rec : Rec) (hrec : ∀ t, Pres I (rec t)) (wuid : Nat) (close : Bool) (wt : Waiter) : Pres I (stopAfterKill rec wuid close wt) :=
+  stopAfterKill_presE S.toSpecCoreRE rec hrec wuid close wt
+
+theorem spawnProcess_presR (S : SpecCoreR I) (rec : Rec) (hrec : ∀ t, Pres I (rec t)) (wuid : Nat) : Pres I (spawnProcess rec wuid) :=
+  spawnProcess_presE S.toSpecCoreRE rec hrec wuid
+
+theorem pendingSocketEvent_presR (L : LeafR I) (u : Nat) : Pres I (pendingSocketEvent u) :=
+  pendingSocketEvent_presE L.toLeafRE u
+
+theorem spawnLoop_presR (S : SpecCoreR I) (rec : Rec) (hrec : ∀ t, Pres I (rec t)) (wuid rem : Nat) (wt : Waiter) : Pres I (spawnLoop rec wuid rem wt) :=
+  spawnLoop_presE S.toSpecCoreRE rec hrec wuid rem wt
+
+theorem spawnProcesses_presR (S : SpecCoreR I) (rec : Rec) (hrec : ∀ t, Pres I (rec t)) (wuid : Nat) (wt : Waiter) : Pres I (spawnProcesses rec wuid wt) :=
+  spawnProcesses_presE S.toSpecCoreRE rec hrec wuid wt
+
+theorem popKilled_presR (S : SpecCoreR I) (rec : Rec) (hrec : ∀ t, Pres I (rec t)) (wuid : Nat) (tk : List Nat) (v : Val) (wt : Waiter) : Pres I (popKilled rec wuid tk v wt) :=
+  popKilled_presE S.toSpecCoreRE rec hrec wuid tk v wt
+
+theorem manageTail_presR (S : SpecCoreR I) (rec : Rec) (hrec : ∀ t, Pres I (rec t)) (wuid : Nat) (wt : Waiter) : Pres I (manageTail rec wuid wt) :=
+  manageTail_presE S.toSpecCoreRE rec hrec wuid wt
+
+theorem manageAfterExpire_presR (S : SpecCoreR I) (rec : Rec) (hrec : ∀ t, Pres I (rec t)) (wuid : Nat) (wt : Waiter) : Pres I (manageAfterExpire rec wuid wt) :=
+  manageAfterExpire_presE S.toSpecCoreRE rec hrec wuid wt
+
+theorem removeExpired_presR (S : SpecCoreR I) (rec : Rec) (hrec : ∀ t, Pres I (rec t)) (wuid : Nat) (wt : Waiter) : Pres I (removeExpired rec wuid wt) :=
+  removeExpired_presE S.toSpecCoreRE rec hrec wuid wt
+
+theorem manageProcesses_presR (S : SpecCoreR I) (rec : Rec) (hrec : ∀ t, Pres I (rec t)) (wuid : Nat) (wt : Waiter) : Pres I (manageProcesses rec wuid wt) :=
+  manageProcesses_presE S.toSpecCoreRE rec hrec wuid wt
+
+theorem startW_presR (S : SpecCoreR I) (rec : Rec) (hrec : ∀ t, Pres I (rec t)) (wuid : Nat) (wt : Waiter) : Pres I (startW rec wuid wt) :=
+  startW_presE S.toSpecCoreRE rec hrec wuid wt
+
+theorem startAfterSpawn_presR (S : SpecCoreR I) (rec : Rec) (hrec : ∀ t, Pres I (rec t)) (wuid : Nat) (wt : Waiter) : Pres I (startAfterSpawn rec wuid wt) :=
+  startAfterSpawn_presE S.toSpecCoreRE rec hrec wuid wt
+
+theorem reloadW_presR (S : SpecCoreR I) (rec : Rec) (hrec : ∀ t, Pres I (rec t)) (wuid : Nat) (g sq : Bool) (wt : Waiter) : Pres I (reloadW rec wuid g sq wt) :=
+  reloadW_presE S.toSpecCoreRE rec hrec wuid g sq wt
+
+theorem reloadSeqNext_presR (S : SpecCoreR I) (rec : Rec) (hrec : ∀ t, Pres I (rec t)) (wuid : Nat) (rest : List Nat) (wt : Waiter) : Pres I (reloadSeqNext rec wuid rest wt) :=
+  reloadSeqNext_presE S.toSpecCoreRE rec hrec wuid rest wt
+
+theorem reloadSeqAfterKill_presR (S : SpecCoreR I) (rec : Rec) (hrec : ∀ t, Pres I (rec t)) (wuid pid : Nat) (rest : List Nat) (wt : Waiter) : Pres I (reloadSeqAfterKill rec wuid pid rest wt) :=
+  reloadSeqAfterKill_presE S.toSpecCoreRE rec hrec wuid pid rest wt
+
+theorem setNumprocesses_presR (S : SpecCoreR I) (rec : Rec) (hrec : ∀ t, Pres I (rec t)) (wuid : Nat) (n : Int) (wt : Waiter) : Pres I (setNumprocesses rec wuid n wt) :=
+  setNumprocesses_presE S.toSpecCoreRE rec hrec wuid n wt
+
+theorem doAction_presR (S : SpecCoreR I) (rec : Rec) (hrec : ∀ t, Pres I (rec t)) (wuid : Nat) (n : Int) (wt : Waiter) : Pres I (doAction rec wuid n wt) :=
+  doAction_presE S.toSpecCoreRE rec hrec wuid n wt
+
+theorem pubInfo_presR (S : SpecCoreR I) (rec : Rec) (hrec : ∀ t, Pres I (rec t)) (wuid : Nat) (b : List Nat) (wt : Waiter) : Pres I (pubInfo rec wuid b wt) :=
+  pubInfo_presE S.toSpecCoreRE rec hrec wuid b wt
+
+theorem arbStartNext_presR (S : SpecCoreR I) (rec : Rec) (hrec : ∀ t, Pres I (rec t)) (ws : List Nat) (wt : Waiter) : Pres I (arbStartNext rec ws wt) :=
+  arbStartNext_presE S.toSpecCoreRE rec hrec ws wt
+
+theorem arbStartAfterStart_presR (S : SpecCoreR I) (rec : Rec) (hrec : ∀ t, Pres I (rec t)) (ws : List Nat) (wt : Waiter) : Pres I (arbStartAfterStart rec ws wt) :=
+  arbStartAfterStart_presE S.toSpecCoreRE rec hrec ws wt
+
+theorem arbStopTail_presR (S : SpecCoreR I) (rec : Rec) (hrec : ∀ t, Pres I (rec t)) (wt : Waiter) : Pres I (arbStopTail rec wt) :=
+  arbStopTail_presE S.toSpecCoreRE rec hrec wt
+
+theorem arbStop_presR (S : SpecCoreR I) (rec : Rec) (hrec : ∀ t, Pres I (rec t)) (wt : Waiter) : Pres I (arbStop rec wt) :=
+  arbStop_presE S.toSpecCoreRE rec hrec wt
+
+theorem arbRestartInside_presR (S : SpecCoreR I) (rec : Rec) (hrec : ∀ t, Pres I (rec t)) (wt : Waiter) : Pres I (arbRestartInside rec wt) :=
+  arbRestartInside_presE S.toSpecCoreRE rec hrec wt
+
+theorem arbReloadNext_presR (S : SpecCoreR I) (rec : Rec) (hrec : ∀ t, Pres I (rec t)) (ws : List Nat) (g sq : Bool) (wt : Waiter) : Pres I (arbReloadNext rec ws g sq wt) :=
+  arbReloadNext_presE S.toSpecCoreRE rec hrec ws g sq wt
+
+theorem arbReloadAfter_presR (S : SpecCoreR I) (rec : Rec) (hrec : ∀ t, Pres I (rec t)) (ws : List Nat) (g sq : Bool) (wt : Waiter) : Pres I (arbReloadAfter rec ws g sq wt) :=
+  arbReloadAfter_presE S.toSpecCoreRE rec hrec ws g sq wt
+
+theorem manageWatchers_presR (S : SpecCoreR I) (rec : Rec) (hrec : ∀ t, Pres I (rec t)) (wt : Waiter) : Pres I (manageWatchers rec wt) :=
+  manageWatchers_presE S.toSpecCoreRE rec hrec wt
+
+theorem rmWatcher_presR (S : SpecCoreR I) (rec : Rec) (hrec : ∀ t, Pres I (rec t)) (uid : Nat) (ns : Bool) (wt : Waiter) : Pres I (rmWatcher rec uid ns wt) :=
+  rmWatcher_presE S.toSpecCoreRE rec hrec uid ns wt
+
+theorem manageWatchersTail_presR (S : SpecCoreR I) (rec : Rec) (hrec : ∀ t, Pres I (rec t)) (need : Bool) (wt : Waiter) : Pres I (manageWatchersTail rec need wt) :=
+  manageWatchersTail_presE S.toSpecCoreRE rec hrec need wt
+
+theorem runCall_presR (S : SpecCoreR I) (rec : Rec) (hrec : ∀ t, Pres I (rec t)) (c : Call) (wt : Waiter) : Pres I (runCall rec c wt) :=
+  runCall_presE S.toSpecCoreRE rec hrec c wt
+
+theorem runResume_presR (S : SpecCoreR I) (rec : Rec) (hrec : ∀ t, Pres I (rec t)) (k : Kont) (v : Val) (wt : Waiter) : Pres I (runResume rec k v wt) :=
+  runResume_presE S.toSpecCoreRE rec hrec k v wt
+
+theorem exec_presR (S : SpecCoreR I) (n : Nat) (t : Task) : Pres I (exec n t) :=
+  exec_presE S.toSpecCoreRE n t
+
+theorem lookupWatcher_presR (L : LeafR I) (n : String) : Pres I (lookupWatcher n) :=
+  lookupWatcher_presE L.toLeafRE n
+
+theorem getWatcherCmd_presR (L : LeafR I) (n : JVal) : Pres I (getWatcherCmd n) :=
+  getWatcherCmd_presE L.toLeafRE n
+
+theorem matchWatchers_presR (L : LeafR I) (p : JVal) : Pres I (matchWatchers p) :=
+  matchWatchers_presE L.toLeafRE p
+
+theorem sortUids_presR (L : LeafR I) (us : List Nat) (r : Bool) : Pres I (sortUids us r) :=
+  sortUids_presE L.toLeafRE us r
+
+theorem plainCoroutine_presR (S : SpecCoreR I) (c : Call) : Pres I (plainCoroutine c []) :=
+  plainCoroutine_presE S.toSpecCoreRE c
+
+theorem syncCoroutine_presR (S : SpecCoreR I) (name : String) (c : Call) : Pres I (syncCoroutine name c []) :=
+  syncCoroutine_presE S.toSpecCoreRE name c
+
+theorem execSSR_presR (S : SpecCoreR I) (kind : String) (p : JVal) : Pres I (execSSR kind p) :=
+  execSSR_presE S.toSpecCoreRE kind p
+
+theorem execIncrDecr_presR (S : SpecCoreR I) (sg : Int) (p : JVal) : Pres I (execIncrDecr sg p) :=
+  execIncrDecr_presE S.toSpecCoreRE sg p
+
+theorem execReload_presR (S : SpecCoreR I) (p : JVal) : Pres I (execReload p) :=
+  execReload_presE S.toSpecCoreRE p
+
+theorem execSet_presR (S : SpecCoreR I) (p : JVal) : Pres I (execSet p) :=
+  execSet_presE S.toSpecCoreRE p
+
+theorem execKill_presR (S : SpecCoreR I) (p : JVal) : Pres I (execKill p) :=
+  execKill_presE S.toSpecCoreRE p
+
+theorem execSignal_presR (S : SpecCoreR I) (p : JVal) : Pres I (execSignal p) :=
+  execSignal_presE S.toSpecCoreRE p
+
+theorem execRm_presR (S : SpecCoreR I) (p : JVal) : Pres I (execRm p) :=
+  execRm_presE S.toSpecCoreRE p
+
+theorem execAdd_presR (S : SpecCoreR I) (p : JVal) : Pres I (execAdd p) :=
+  execAdd_presE S.toSpecCoreRE p
+
+theorem execReadOnly_presR (S : SpecCoreR I) (c : String) (p : JVal) : Pres I (execReadOnly c p) :=
+  execReadOnly_presE S.toSpecCoreRE c p
+
+theorem validateExecute_presR (S : SpecCoreR I) (c : String) (p : JVal) : Pres I (validateExecute c p) :=
+  validateExecute_presE S.toSpecCoreRE c p
+
+theorem handleMessage_presR (S : SpecMR I) (cid : Option String) (msg : Option JVal) : Pres I (handleMessage cid msg) :=
+  handleMessage_presE S.toSpecMRE cid msg
+
+theorem sigQuit_presR (S : SpecMR I) : Pres I sigQuit :=
+  sigQuit_presE S.toSpecMRE 
+
+theorem settle_presR (S : SpecR I) (n : Nat) : Pres I (settle n) :=
+  settle_presE S.toSpecRE n
+
+theorem stepOp_presR (S : SpecMR I) (op : Op) : Pres I (stepOp op) :=
+  stepOp_presE S.toSpecMRE op
+
+theorem stepTail_presR (S : SpecR I) : Pres I stepTail :=
+  stepTail_presE S.toSpecRE 
+
+theorem stepM_presR (S : SpecR I) (op : Op) : Pres I (stepM op) :=
+  stepM_presE S.toSpecRE op
+
+theorem run_presR (S : SpecR I) (s : State) (ops : List Op) (h : I s) : I (run s ops) :=
+  run_presE S.toSpecRE s ops h
+
+/-! ### from the full structures to the `R` chain -/
+
+/-- `stop_controller_and_close_sockets`, for an invariant that survives `setClosed` -/
+theorem stopController_of (L : LeafR I) (hc : Pres I setClosed) : Pres I stopController :=
+  stopController_ofE L.toLeafRE hc
+
+/-- `spawn_process`'s attempts, for an invariant that survives `spawnAdopt` for any watcher -/
+theorem spawnTry_of (L : LeafR I) (hsa : ∀ u w, Pres I (spawnAdopt u w))
+    (hnew : ∀ cbs, TopCb.release ∉ cbs → Pres I (newTop cbs))
+    (rec : Rec) (hrec : ∀ t, Pres I (rec t)) (wuid n : Nat) : Pres I (spawnTry rec wuid n) :=
+  spawnTry_ofE L.toLeafRE hsa hnew (fun w p x => L.emitEv w "spawn" p x) rec hrec wuid n
+
+theorem spawnProcess_of (L : LeafR I) (hsa : ∀ u w, Pres I (spawnAdopt u w))
+    (hnew : ∀ cbs, TopCb.release ∉ cbs → Pres I (newTop cbs))
+    (rec : Rec) (hrec : ∀ t, Pres I (rec t)) (wuid : Nat) : Pres I (spawnProcess rec wuid) :=
+  spawnProcess_ofE L.toLeafRE hsa hnew (fun w p x => L.emitEv w "spawn" p x) rec hrec wuid
+
+/-- `stopCore`, for an invariant that survives the status write on any watcher -/
+theorem stopCore_of (L : LeafW I) (hst : ∀ u, Pres I (setStatus u .stopped)) (u : Nat) : Pres I (stopCore u) :=
+  stopCore_ofE L.toLeafWE hst u
 
 theorem Leaf.toLeafR (L : Leaf I) : LeafR I where
   toLeafW := L.toLeafW
@@ -884,6 +1408,7 @@ theorem stepM_pres (S : Spec I) (op : Op) : Pres I (stepM op) :=
 
 theorem run_pres (S : Spec I) (s : State) (ops : List Op) (h : I s) : I (run s ops) :=
   run_presR S.toSpecR s ops h
+
 
 end
 end Circus.Core
